@@ -12,1727 +12,1947 @@ Definition show_fres (r : fres) : string :=
   end.
 Definition check (rs : list rune) : string := digest (show_fres (format_res rs)).
 Definition full (rs : list rune) : string := show_fres (format_res rs).
-Eval vm_compute in ("<<<M4192>>>" ++ check (runes_of_ascii "
-options{
-	Logon
-
-    =int64
-zchar
-=
-
-    '0' ;x_y_z
-= ""abc"" ; }
-root  packet
-	Packet
-
-{ @calculatedFrom(  ""// no comment"")
-char[]
-o // c
-  	,@lengthOf(
-uint8x  )
-
-i32 
-metadata 
-,
-@rightPad(
-
-' '
-)
-repeat
-	Foo	{BodyLength{
-	i8i8
-
-    `{ , }`,
-}
-,match
-_x
-as charz
-
-    {42 :
-Pad,
-},Pad zchar
-
-    ,string
-
-charz
-, 
-
-// trailing space 
-	},
-char[
-1 
-] Foo ,	@lengthOf(	f32a  )@leftPad
-( '\x00' )
-
-    match
-
-calculatedFrom 
-as
-u8x	{0123456789 :
-Packet	""a\""b""// packet A { u8 x, }
-:  //
-charz ,
-    4294967296 :
-f32a	[
-""packet""]
-:zchar 
-, ""packet""
-	:
-    a1 
-,
-}
-    , _x {repeat  char[0 
-] len
-	,
-}
-    ,
-
-    zchar[
-//	t
-    // c
-0123456789
-]pack 
-@lengthOf( asx )	,	}packet
-    Pad { 
-
-    // trailing space 
-	  //	t
-
-	@lengthOf(
-
-u8x
-
-) char[ 
-0
-
-    ] options1 `it's` ,
-	@lengthOf(body
-
-)
-
-    u128
-
-    {  Z9_ { 
-string_ @calculatedFrom(
-
-    ""CRC32"")`" ++ [233]%N ++ runes_of_ascii "`
-,} //	t
-  	,match Header as	o
-
-{
-
-""packet"" : i64_
-
-    ,
-	""" ++ [28040; 24687]%N ++ runes_of_ascii """ : leftPad
-
-,  3	:
-    i64_,  }
-
-    ,
-
-    int8
-body
-
-@calculatedFrom(
-
-    ""a\\""
-)`
-` , repeat
-Pad
-{ 	 // " ++ [128512]%N ++ runes_of_ascii " emoji
-    zchar[
-	1 ]
-    metadata @lengthOf( 
-Z9_)	`// not a comment` 
-,	rootA
-metadata ,	u32 i8i8
-
-    @lengthOf(
-    roots	)
-
-    ,
-repeat 
-	    //	t
-	// @lengthOf(
-  uint64
-pack , 
-}
-,
-	} 
-,
-    char[
-    0
-
-    ] chars
-        // " ++ [128512]%N ++ runes_of_ascii " emoji
-    // `tick` ""quote"" 'q'
-    ,
-	i8 msg_type  `" ++ [233]%N ++ runes_of_ascii "` 
-, match u	as
-	body// c
-{
-42
-:
-zchar
-
-}
-
-,
-    @leftPad ( ' '
-)  asx
-{ repeat
-repeatCount
-	Z9_  ,
-	repeat 	 //	t
-    zchar[4294967296 
-]  //
-      Pad, } ,
-	@tag( 
-255
-	) 
-@tag(
-	255	) char[
-
-    0123456789
-] u8x, 
-//	t
-  @calculatedFrom(
-
-    ""CRC32""	)  // trailing space 
-      char[	3
-
-]
-	Pad `" ++ [233]%N ++ runes_of_ascii "`	,
-
-    @lengthOf( 
-x_y_z
-
-)  @rightPad (// `tick` ""quote"" 'q'
-  )
-@rightPad
-    ( 
-/// triple
-	)Foo{
-match
-asx 
-as	lengthOf
-	{
-
-[	""""	,00
-	,  ""1""
-,
-	""// no comment""
-	, 4294967296
-
-,
-007 , ""{,}"" ]
-	: MetaDataX , }
-,
-
-} ,  }// c
-
-	root packet
-crc  
-      // " ++ [27880; 37322]%N ++ runes_of_ascii "
-    //x
-  { repeat  i32
-body
-,	float64
-    // c
-	Header 
-`u8 x,`  ,string 
-Foo@lengthOf( packetx  // trailing space 
-    	),
-
-char[]
-
-    As
-
-    `" ++ [28040; 24687; 31867; 22411]%N ++ runes_of_ascii "` ,
-
-string_	@calculatedFrom( ""\" ++ [233]%N ++ runes_of_ascii """
-	)`it's`
-,	@calculatedFrom(	""CRC32""	)
-@tag(
-    1 
-)
-
-    repeat
-	trueish packetx  // @lengthOf(
-    , }
-
-MetaData 
-f32a {
-char[]
-
-    Header
-    ,}")).
-Eval vm_compute in ("<<<M184>>>" ++ check (runes_of_ascii "MetaData float {
-    lengthOf u128 `tab	here` ,u x ,
-metadata crc `line1
-line2` ,
-} root
-packet//
-trueish { @leftPad (
-'0'
-    ) repeat zchar[ 10 ] lengthOf `u8 x,`
-    ,@leftPad
-// " ++ [27880; 37322]%N ++ runes_of_ascii "
-// trailing space 
-('\x00'	) zchar[ 255 ] tag
-// a // b
-// @lengthOf(
-,
-@leftPad	(
-    ) u128 trueish, chars@lengthOf(
-    i64_
-) `it's` //	t
-,
-    @tag( 10 ) zchar[
-    007 ] asx, char[
-1]
-    zchar,
-// `tick` ""quote"" 'q'
-// trailing space 
-@tag( 7
-    // packet A { u8 x, }
-    ) @calculatedFrom(""packet""
-    )	match  f32a as
-uint8x{
-00  :Header , 007// trailing space 
-: charz ,[ 255 , """ ++ [233]%N ++ runes_of_ascii "t" ++ [233]%N ++ runes_of_ascii """ ] :
-rootA
-    // `tick` ""quote"" 'q'
-    ""it's"" :
-    lengthOf
-,""x y"" :
-pack //x
-,
-""" ++ [28040; 24687]%N ++ runes_of_ascii """
-: _x , } , repeat Header { char[ 7] i8i8 ,char  msg_type @lengthOf(pack ) `line1
-line2`
-,
-// packet A { u8 x, }
-// a // b
-uint8
-crc @lengthOf(
-zchar ) `line1
-line2` ,} , } packet Foo
-    { } packet// @lengthOf(
-Foo { zchar[0123456789
-    ]
+Eval vm_compute in ("<<<M974>>>" ++ check (runes_of_ascii "options
+    { As
+= false}packet
+stringy { @calculatedFrom( """ ++ [128512]%N ++ runes_of_ascii """ ) @calculatedFrom( ""\n"" ) MetaDataX metadata
+, @tag(
+7 ) u64
     packetx
-    @calculatedFrom(
-""packet"" // packet A { u8 x, }
-)
-    `doc`  , zchar @calculatedFrom( ""\n""//	t
-)
-`
-` , @leftPad  ( '\x00' )
-    @tag( // trailing space 
-65535 ) char[ 0
-/// triple
-// c
-] metadata@calculatedFrom( ""a\""b"" ), repeat
-    lengthOf{ lengthOf
-`" ++ [233]%N ++ runes_of_ascii "`
-    // `tick` ""quote"" 'q'
-    ,
-} , As , }
-packet BodyLength {//x
-@calculatedFrom( ""a\""b""
-)
-    @lengthOf( x ) @tag( 00
-) Packet zchar
-    `` ,
-@tag(0123456789 )	repeat	char[ 255 ]  x `it's`,// a // b
-u
-// " ++ [128512]%N ++ runes_of_ascii " emoji
-// c
-{ match BodyLength
-as
-// packet A { u8 x, }
-// `tick` ""quote"" 'q'
-tag
-    {3
-: matchKey ,} ,
-} ,@tag( 0123456789 )
-    // " ++ [128512]%N ++ runes_of_ascii " emoji
-    char	asx `line1
-line2`,@lengthOf( chars ) @calculatedFrom(
-""a	b"" )f64 len
-    , match int as //x
-BodyLength { 1
-:
-    Header ,[ 0 ] :// c
-tag
-""" ++ [28040; 24687]%N ++ runes_of_ascii """ :asx, } , @leftPad
-( ' '
-    ) metadata `crlf
-line` ,
-// `tick` ""quote"" 'q'
-// trailing space 
-len
-@lengthOf( metadata
-    ), zchar[  65535 ]
-    A
-@lengthOf( // c
-trueish )
-,@leftPad ( '0'
-)
-repeatCount Z9_
-    `" ++ [233]%N ++ runes_of_ascii "`  ,
-} 	 ")).
-Eval vm_compute in ("<<<M4499>>>" ++ check (runes_of_ascii "root packet zchar {
-    repeatCount @lengthOf(asx),
-    match string_ as o {
-        7 : packetx,
-        7 : Pad,
-    },// packet A { u8 x, }
-    zchar[65535] T @calculatedFrom(""" ++ [128512]%N ++ runes_of_ascii """),
-    tag @lengthOf(u) `crlf
-        line`,
-    @calculatedFrom("""")
-    _x @calculatedFrom(""a	b"") `// not a comment`,
-    match Z9_ as float {
-        0123456789 : calculatedFrom,
-        ""{,}"" : u,
-    },
-    @leftPad()
-    @tag(255)
-    @lengthOf(i8i8)
-    match tag as trueish {
-        4294967296 : uint8x,
-        [65535] : u8x,
-        10 : i64_,
-        """" : metadata,
-    },
-    int64 T,
-}
-
-root packet len {
-    @tag(0)
-    Logon,
-    @tag(255)
-    repeat u64 packetx `it's`,
-    @tag(4294967296)
-    zchar[007] repeatCount `a\`,
-    char[4294967296] asx @calculatedFrom(""it's""),
-}
-
-root packet asx {
-    uint16 options1 @lengthOf(matchKey) `it's`,
-}
-
-root packet Logon {
-    @lengthOf(asx)
-    @calculatedFrom(""packet"")
-    Z9_ @calculatedFrom(""" ++ [28040; 24687]%N ++ runes_of_ascii """),
-    @tag(007)
-    zchar[0123456789] i64_,
-    msg_type `line1
-        line2`,
-    repeat zchar[007] Pad `
-        `,
-    falsey {
-        chars lengthOf ``,
-        match Header as lengthOf {
-            """ ++ [233]%N ++ runes_of_ascii "t" ++ [233]%N ++ runes_of_ascii """ : falsey,
-            42 : uint8x,
-            [
-                007, 65535, 42, ""abc"", ""abc"",
-                ""a\\"", ""a\""b"", ""{,}""
-            ] : charz,
-        },
-        int64 Foo,
-        Z9_ @lengthOf(int) `it's`,
-    },
-    @rightPad()
+, u
     // trailing space 
-    string As @calculatedFrom(""" ++ [28040; 24687]%N ++ runes_of_ascii """),
-    // c
-    match matchKey as repeatCount {
-        4294967296 : msg_type,
-        """ ++ [28040; 24687]%N ++ runes_of_ascii """ : zchar,
-        3 : u8x,
-        """" : asx,
-    },
-}")).
-Eval vm_compute in ("<<<M766>>>" ++ check (runes_of_ascii "
-packet Packet {
-@tag( 10 // a // b
-) match trueish as x_y_z
-{ ""it's"" : i8i8 ,
-// " ++ [27880; 37322]%N ++ runes_of_ascii "
-// " ++ [27880; 37322]%N ++ runes_of_ascii "
-00: asx } , zchar[ 007] u
-@calculatedFrom( ""`tick`"")`line1
-line2`  ,
-    /// triple
-    chars @calculatedFrom( """"),
-    match
-    zchar
-as _x
-{00 : rootA
-""\" ++ [233]%N ++ runes_of_ascii """: metadata
+    charz `// not a comment` , @rightPad
+(
+    ) repeat
+    i16	As`{ , }`
 // c
-// trailing space 
-,	}
-// a // b
-//
-, body
-    {
-    u32 u128 @calculatedFrom( ""{,}"" ) , repeat char[
-    //x
-    4294967296	]u `say ""hi""` ,
-} // c
-,
-    @lengthOf(stringy
-    ) float
-{string//x
-leftPad, repeat	uint16 Pad ,char u // @lengthOf(
-, // " ++ [128512]%N ++ runes_of_ascii " emoji
-i8i8 u ,
-    } ,	match o as
-x
-    {  [ ""`tick`"" ,
-""1"" , 10 ,
-//
-// c
-1 , 00, 0 , 255] :uint8x//
-, 0 : T , //
-1 :trueish 1
-: rootA, } // @lengthOf(
-, zchar[ //	t
-255 ] T`line1
-line2` , @leftPad ( '0' // c
-) @leftPad
-( '\x00')
-@tag(	007 ) match T
-as
-    u8x{ [ 007
-]
-: A , 0 :x,[ 4294967296 ] :
-charz,"""" : As //
-, 7
-    :// `tick` ""quote"" 'q'
-int ,
-65535: x_y_z
-,
-    }, // trailing space 
-} options{ /// triple
-x
-= '\x00' ; // packet A { u8 x, }
-}
-    // " ++ [128512]%N ++ runes_of_ascii " emoji
-    root packet i64_ {  @tag(4294967296  ) falsey options1// `tick` ""quote"" 'q'
-, uint64 Pad `doc` , @tag(
-65535 )
-    char
-// " ++ [128512]%N ++ runes_of_ascii " emoji
+//	t
+,@rightPad
+    (  ' '
+) /// triple
+@lengthOf(
+uint8x )
+msg_type { repeat options1 // " ++ [27880; 37322]%N ++ runes_of_ascii "
+{ //	t
+string
+body , } , repeat int8 T//
+,float32 len ,  pack
 /// triple
-Logon @calculatedFrom(
-    """"
-// @lengthOf(
+// trailing space 
+{repeat u16 lengthOf `line1
+line2` ,  i32 len@lengthOf(	MetaDataX)
+    `" ++ [233]%N ++ runes_of_ascii "`
+,uint8x	{ BodyLength
+    @lengthOf(
+x
+) , zchar[255]falsey	@lengthOf(Logon ) `crlf
+line` , /// triple
+},u8x
+, } , /// triple
+}
+    // " ++ [27880; 37322]%N ++ runes_of_ascii "
+    , @lengthOf( matchKey
+) int ,} root packet Packet { uint16 u `a\`
+,
+    @leftPad ( '0'  )repeat
+//x
 // c
+msg_type
+{ falsey { repeatCount { uint32 As /// triple
+, char[] repeatCount ,} ,}
+, }
+    ,@leftPad (
+'0' )
+@tag(
+3) match
+    calculatedFrom as asx { ""{,}""  : float, 1 : MetaDataX
+""\" ++ [233]%N ++ runes_of_ascii """ // " ++ [27880; 37322]%N ++ runes_of_ascii "
+:	_x
+, 10
+    :
+string_ 0 : lengthOf
+} /// triple
+, u body
+    , f32 Pad
+    @lengthOf( MetaDataX )
+    // c
+    `" ++ [28040; 24687; 31867; 22411]%N ++ runes_of_ascii "` ,
+    zchar[ 42 ]
+u `{ , }`	, @calculatedFrom( ""\n"" )
+    // c
+    string
+T
+@lengthOf( tag //x
 )
-    ,char[ 0 // @lengthOf(
-]MetaDataX `a\` /// triple
-, //
-metadata f32a `tab	here` , stringy Header ,
-    @leftPad () //x
-@calculatedFrom(// c
-""\" ++ [233]%N ++ runes_of_ascii """ ) @calculatedFrom(""" ++ [128512]%N ++ runes_of_ascii """ )
-    char[] body @calculatedFrom( ""a	b"" )	`a\` , }")).
-Eval vm_compute in ("<<<M1103>>>" ++ check (runes_of_ascii "packet body {
-@tag(00) options1 @calculatedFrom(""1""
+`say ""hi""` , // c
+@rightPad // c
+('0'
+    )
+match body as uint8x { [4294967296
+, 1 , 00,
+""x y""]
+    : a1 ,} , } packet
+a1 {@tag(
+    42
 )
-    ,@calculatedFrom(
-// " ++ [27880; 37322]%N ++ runes_of_ascii "
-// packet A { u8 x, }
-""abc"" )
-uint8x
-    {o
-    //	t
-    , // c
-u16 float
-`a\` ,} , @tag( 1 ) u `u8 x,` ,crc { zchar{ match/// triple
-i8i8 as // trailing space 
-int {	""`tick`"": x_y_z,
-}, repeat uint8 f32a,
-    }
-,// c
-i8 As@lengthOf( Foo  ) `it's`
-,charz@calculatedFrom(
-""it's"") , char[ 4294967296 ] Packet `it's` , } ,
-    @lengthOf( Z9_
-)  crc  { repeat options1 {
-match // `tick` ""quote"" 'q'
+    u16 tag @lengthOf(MetaDataX
+    )
+,
+    uint64 int `tab	here` , string float
+    @lengthOf( packetx )// " ++ [128512]%N ++ runes_of_ascii " emoji
+`crlf
+line`
+    , float32 options1`it's` , @calculatedFrom( ""CRC32""	) uint8 crc , @tag( 1
+) metadata f32a
+    `" ++ [233]%N ++ runes_of_ascii "`
+, @rightPad( // packet A { u8 x, }
+'\x00'
+)
+@lengthOf(pack)	@tag( 0123456789 )float32 uint8x
+    @lengthOf(
+    u ) // packet A { u8 x, }
+,
+    //
+    } root packet i8i8
+{
+    match
 MetaDataX
 as
-    pack
-    { [
-//	t
-//
-""a\\"" ]
-: i8i8 ,""a\\""  :falsey [""packet""
-] : Logon,	[ 4294967296 ,
-    ""abc"" ,""{,}"",//x
-3 , """ ++ [128512]%N ++ runes_of_ascii """ , 7 ,00
+o { ""// no comment""
+: options1
 ,
-    7
-    ] : matchKey ,
-0 : trueish ,
-} ,x_y_z repeatCount , repeat uint16 repeatCount //
-, },
-options1
-, // " ++ [128512]%N ++ runes_of_ascii " emoji
-falsey{ char[]
-    u `u8 x,` ,  } , }
-,
-} root packet Pad { match o // trailing space 
-as a1{ [
-"""" ,
-""packet""
-    // c
-    , 1 ,
-    //	t
-    0123456789 // trailing space 
-]
-    : charz
-,// trailing space 
-""a\""b""
-:
-x_y_z ,
-[
-    ""CRC32""
-, 007, 255
-] :
-float , 4294967296 : int ,
-""{,}"" :stringy ,
-    4294967296: A,
-} ,	@rightPad
-    () @tag(
-    7 //
-) match // packet A { u8 x, }
-uint8x
-as
-crc{  255
-: pack , }
-    ,repeat int8
-i8i8 ,} packet a1
-{ string As  @calculatedFrom(
-    ""a	b""
-    ),} MetaData u {  }
-    //x
-    root packet f32a {	}")).
-Eval vm_compute in ("<<<M4397>>>" ++ check (runes_of_ascii "packet lengthOf {
-    matchKey `doc`,
-    i8i8 {
-        match crc as zchar {
-            [1, 0, 0123456789, 65535, ""abc""] : chars,
-            ""\n"" : uint8x,
-            ""a\""b"" : int,
-            [
-                4294967296, 4294967296, ""`tick`"", ""a	b"", ""a	b"",
-                """", ""a\""b""
-            ] : string_,
-            0123456789 : A,
-            ""packet"" : asx,
-        },
-        char[00] u8x `u8 x,`,
-        u8x {
-            uint32 float @calculatedFrom(""{,}""),
-            //	t
-            // " ++ [128512]%N ++ runes_of_ascii " emoji
-            char[0] zchar,
-        },
-        falsey @calculatedFrom(""" ++ [128512]%N ++ runes_of_ascii """),
-    },
-    @calculatedFrom(""1"")
-    zchar[255] metadata @lengthOf(packetx),
-    Header @calculatedFrom(""CRC32""),
-    // c
-    // trailing space 
-    float @lengthOf(crc) ``,
-    @tag(42)
-    @lengthOf(A)
-    @lengthOf(u128)
-    stringy `" ++ [233]%N ++ runes_of_ascii "`,
-    @leftPad('0')
-    char[4294967296] float,
-    u `" ++ [233]%N ++ runes_of_ascii "`,
-    @lengthOf(falsey)
-    @lengthOf(lengthOf)
-    repeat f32 matchKey `line1
-    line2`,
-}
-
-options {
-    lengthOf = string;
-}
-
-packet falsey {
-    @tag(1)
-    int16 repeatCount @lengthOf(charz) `a\`,
-    repeat u64 MetaDataX `say ""hi""`,
-}
-
-options {
-    x = ""abc""
-}
-
-MetaData BodyLength {
-    zchar[4294967296] zchar,
-}")).
-Eval vm_compute in ("<<<M127>>>" ++ check (runes_of_ascii "root packet As// `tick` ""quote"" 'q'
-{
-    @calculatedFrom( ""{,}""	)zchar[ 4294967296
-    // packet A { u8 x, }
-    ]As ,@tag( 7 ) repeat
-    pack
-    {body
-    {// trailing space 
-zchar[
-65535 //x
-] MetaDataX `doc`
-, string_ @lengthOf( // " ++ [27880; 37322]%N ++ runes_of_ascii "
-Logon  ) , i64 MetaDataX@calculatedFrom( """" )// " ++ [27880; 37322]%N ++ runes_of_ascii "
-`a\`, //x
-repeat char[] Foo,	} ,
-/// triple
-// packet A { u8 x, }
-},@lengthOf( MetaDataX
-    ) @calculatedFrom(
-""\n""	) @lengthOf( float )
-char[ 0123456789 ] a1 @calculatedFrom( ""a\""b"") ,
-repeat msg_type  { // `tick` ""quote"" 'q'
-repeat f64 Packet`a\` , int64 asx@calculatedFrom( ""{,}"" )`" ++ [233]%N ++ runes_of_ascii "`  ,zchar[3  ]
-    metadata	,	zchar[
-00 ] x_y_z
-    @calculatedFrom( ""CRC32""
-) , }, } packet calculatedFrom // a // b
-{ match calculatedFrom as BodyLength{ 65535
-: Foo ,
-    }, match
-    int as falsey {  42 : body, [ ""abc""
-// " ++ [128512]%N ++ runes_of_ascii " emoji
-// " ++ [27880; 37322]%N ++ runes_of_ascii "
-,
-    ""\n"" , ""abc""
-,""" ++ [28040; 24687]%N ++ runes_of_ascii """	]:stringy
-    // `tick` ""quote"" 'q'
-    , [0123456789
-, ""{,}""
-,
-42
-    , 1
-]// " ++ [27880; 37322]%N ++ runes_of_ascii "
-: trueish , ""`tick`"" :metadata ,  [ ""1"" , ""a	b"" , 42
-]
-: zchar}
-    ,repeat zchar[  4294967296 ]stringy `line1
-line2`
-, } options // @lengthOf(
-{stringy= // packet A { u8 x, }
-' '/// triple
-; }")).
-Eval vm_compute in ("<<<M3670>>>" ++ check (runes_of_ascii "packet Packet {
-    MetaDataX {
-        // " ++ [128512]%N ++ runes_of_ascii " emoji
-        // trailing space 
-        zchar[255] crc @calculatedFrom(""`tick`"") `doc`,// c
-    },
-    u32 As `
-    `,
-    @lengthOf(chars)
-    f64 leftPad `// not a comment`,
-    repeat char[3] len `doc`,
-    match u8x as chars {
-        4294967296 : f32a,
-        [255, 4294967296] : string_,
-        0 : chars,
-        // packet A { u8 x, }
-        ""a\""b"" : options1,
-        7 : falsey,
-    },
-    @lengthOf(len)
-    repeat char[10] Header `crlf
-    line`,// " ++ [27880; 37322]%N ++ runes_of_ascii "
-    rootA asx `two words`,
-}
-
-packet Packet {
-    @tag(00)
-    u16 asx,
-    @calculatedFrom(""a\""b"")
-    charz @lengthOf(a1),
-    @lengthOf(asx)
-    repeat string falsey,
-    u32 options1 @lengthOf(packetx) `it's`,
-}
-
-packet metadata {
-    int16 i8i8,
-    i32 tag `line1
-    line2`,
-    @calculatedFrom(""a\\"")
-    @lengthOf(repeatCount)
-    MetaDataX {
-        repeat x_y_z,
-    },
-    lengthOf tag `" ++ [233]%N ++ runes_of_ascii "`,
-}
-
-MetaData Foo {
-    body chars,
-    char[] asx `// not a comment`,
-    char u8x,
-    x trueish `crlf
-    line`,
-    char[] options1 `u8 x,`,
-}")).
-Eval vm_compute in ("<<<M3607>>>" ++ check (runes_of_ascii "options {
-    LittleEndian = true;
-    StringPrefixLenType = u16;
-    ArrayPrefixLenType = u8;
-    FixedStringPadChar = '0';
-}
-packet Logout {
-    repeat i16 f1,
-    string Ref,
-    @rightPad('\x00') char[9] Tail,
-    repeat char[6] Flags,
-    repeat char[3] Acct,
-}
-packet Party {
-    char[2] f1,
-    u8 Side2,
-    @leftPad(' ') char[1] venue,
-}
-packet Order {
-    repeat i64 Ref,
-    InPx62 {
-        i32 OrderId,
-    },
-    InNote53 {
-        InClordid80 {
-            char[] Acct,
-            u32 Px,
-            repeat Party,
-        },
-        InPrice12 {
-            u8 pad0,
-        },
-        repeat Logout,
-        InFlags23 {
-            repeat string seqNo,
-            string sym,
-            int8 Flags,
-            zchar[5] lastPx,
-            zchar[6] Px,
-        },
-        char[10] Acct,
-        InPx18 {
-            zchar[2] count,
-            Party,
-        },
-    },
-    char[5] Side2,
-    char[1] Acct,
-}
-root packet Ack {
-    u32 Tail,
-    repeat char[4] msgKind,
-    repeat Logout,
-}
-")).
-Eval vm_compute in ("<<<M3609>>>" ++ check (runes_of_ascii "options	{
-
-    LittleEndian  =
-true
-
-;StringPrefixLenType =u16 ;
-ArrayPrefixLenType	= u8
-
-;
-	FixedStringPadChar
-= '0'
-
-    ; }
-
-    packet  Logout {
-
-repeat i16	f1
-	,
-string
-    Ref,
-    @rightPad  (
-
-    '\x00'	) char[
-    9
-
-    ]Tail
-    , repeat char[
-6
-]
-Flags
-
-,
-
-repeat
-char[ 3] 
-Acct ,
-} packet	Party 
-{ 
-char[
-	2
-] f1 
-,	u8
-	Side2
-
-,
-	@leftPad(
-
-' ')
-	char[
-
-1] venue	,}	packet  Order{	repeat
-    i64
-    Ref
-
-    , InPx62
-{  i32 OrderId , 
-} ,InNote53
-{	InClordid80
-
-    { char[]  Acct
-    ,
-    u32
-
-    Px
-,
-    repeat  Party 
-,}  ,
-InPrice12
-{
-
-    u8
-
-    pad0, }
-,  repeat 
-Logout ,InFlags23 { repeat
-
-string
-    seqNo	,
-    string
-	sym
-
-    ,
-int8
-
-Flags
-,
-    zchar[5]lastPx
-
-    ,zchar[
-6	]  Px , } ,
-char[
-	10 ]Acct
-,InPx18{
-zchar[2 ]
-count 
-,Party , },
-
-}	,
-char[
-
-5 
-]
-Side2 ,
-char[
-
-    1
-
-]
-Acct 
-, }
-    root
-packet	Ack	{ u32  Tail	, repeat
-char[4]  msgKind,  repeat Logout
-
-, }
-
-")).
-Eval vm_compute in ("<<<M261>>>" ++ check (runes_of_ascii "root packet pack { match MetaDataX as Packet { 7: trueish , /// triple
-""" ++ [233]%N ++ runes_of_ascii "t" ++ [233]%N ++ runes_of_ascii """: MetaDataX
-,4294967296
-:msg_type  65535 : metadata ,3: x_y_z 42 :
-//
-/// triple
-_x// trailing space 
-,}	, } packet x_y_z
-    {repeat crc	metadata,match A as u8x  { [""it's"" ,""\" ++ [233]%N ++ runes_of_ascii """ ,
-0123456789  , ""1"" ,""abc""
-,""// no comment"", 4294967296 ]
-: pack ,007 : tag , } , } packet
-// c
-//x
-repeatCount  { @lengthOf(stringy )
-uint8 f32a , }options
-{
-BodyLength
-    =  '\x00' ; body
-    = ' ' ; } packet
-    charz { repeat Z9_ rootA `two words` , //
-@calculatedFrom( ""a\\""  ) f32a @lengthOf( msg_type
-    )	`say ""hi""` ,int8 As , string	stringy
-@lengthOf(options1 )
-`crlf
-line`,	i8 i8i8
-, f32a options1,
-@leftPad(
-    '\x00' )
-u
-    @calculatedFrom( """ ++ [128512]%N ++ runes_of_ascii """
-) ,
-@calculatedFrom(
-""\" ++ [233]%N ++ runes_of_ascii """ ) @tag(  00 ) @tag(
-0)
-int64 trueish@calculatedFrom(""`tick`"" // trailing space 
-)
-, @leftPad (
-' ' )
-    zchar@lengthOf( Z9_ )
-,} // " ++ [27880; 37322]%N)).
-Eval vm_compute in ("<<<M4365>>>" ++ check (runes_of_ascii "packet
-    int
-    {
-
-@tag(
-
-00 ) float ,	@leftPad (	'0'
-	)	@calculatedFrom( """ ++ [28040; 24687]%N ++ runes_of_ascii """	) match
-    crc 
-as body	{ ""`tick`""
-	: msg_type	} 	 // @lengthOf(
-    ,
-
-    Logon  ,
-repeat
-
-    u8x
-
-    ,  // " ++ [27880; 37322]%N ++ runes_of_ascii "
-
-}
-
-    packet
-    MetaDataX 
-{
-	}packet
-    string_ {	repeat	//
-Header Header 
-,	// trailing space 
-
-}
-packet
-
-A
-	{ @rightPad	// " ++ [27880; 37322]%N ++ runes_of_ascii "
-	(
-'\x00'	// trailing space 
-  )@leftPad (
-	' ' ) 
-repeat
-uint64	matchKey// trailing space 
-
-	, f32 
-len 	 // @lengthOf(
-    	,	// trailing space 
-	repeat 
-tag { i64 
-    // @lengthOf(
-    // " ++ [27880; 37322]%N ++ runes_of_ascii "
-  	roots 
-    // " ++ [27880; 37322]%N ++ runes_of_ascii "
-
-  @lengthOf(
-metadata )  , }  ,	@tag(
-65535
-
-)
-
-char[ 	 //
-    00
-
-    ] 
-// a // b
-/// triple
-a1
-,
-
-repeat
-
-    i16
-
-i8i8 ,
-
-char[
-
-    3]
-
-int
-	@calculatedFrom(	""a\\"" 
-)
-
-    ,// a // b
-	@calculatedFrom(
-
-""" ++ [28040; 24687]%N ++ runes_of_ascii """
-
-) Pad// " ++ [128512]%N ++ runes_of_ascii " emoji
-	@lengthOf(
-    stringy	) ,  /// triple
-  }
-")).
-Eval vm_compute in ("<<<M1249>>>" ++ check (runes_of_ascii "packet x_y_z { @leftPad ()
-    int8
-//x
-// trailing space 
-x_y_z , @lengthOf( f32a ) repeat
-// c
-// trailing space 
-char[ 7 // trailing space 
-]len , int64 matchKey
-    @calculatedFrom( // `tick` ""quote"" 'q'
-""// no comment""
-)
-, @lengthOf(
-roots )
-@lengthOf(
-MetaDataX	)
-int32
-Packet ,// a // b
-@rightPad( ' ') i8i8
-    // " ++ [128512]%N ++ runes_of_ascii " emoji
-    { char Packet @lengthOf(
-//x
-//x
-crc ) `" ++ [28040; 24687; 31867; 22411]%N ++ runes_of_ascii "`
-,} ,@calculatedFrom( """" )repeat zchar[	255]
-i64_ , @tag( 0123456789
-) Logon // " ++ [27880; 37322]%N ++ runes_of_ascii "
-, @lengthOf(  options1 )
-    int32
-Header // `tick` ""quote"" 'q'
-,
-@leftPad (
-    )
-int64 crc
-    , @lengthOf(As )match  trueish as BodyLength { ""\" ++ [233]%N ++ runes_of_ascii """
-// trailing space 
-// @lengthOf(
-: x 0123456789
-:
-/// triple
-// trailing space 
-stringy[ 255,	0 ,
-    """ ++ [128512]%N ++ runes_of_ascii """ , ""packet""]
-    : _x, ""packet"":
-o, 42 :stringy , ""abc"" :
-    Logon ,
-}  ,}")).
-Eval vm_compute in ("<<<M10>>>" ++ check (runes_of_ascii "
-options{
-crc
-// " ++ [128512]%N ++ runes_of_ascii " emoji
-// trailing space 
-= uint8} packet len {uint8x @calculatedFrom( ""x y"" ), @lengthOf(
-    rootA  )
-    @lengthOf( body
-// `tick` ""quote"" 'q'
-// `tick` ""quote"" 'q'
-)@calculatedFrom(  ""x y""
-) Packet  @calculatedFrom(// `tick` ""quote"" 'q'
-""\n"" )
-`
-`
-, Packet ,  repeat
-    // trailing space 
-    i8	Z9_ , @tag(255 )
-falsey `
-` ,	i64 int `line1
-line2` ,@calculatedFrom(
-    ""\n""
-// packet A { u8 x, }
-/// triple
-) @leftPad()
-@calculatedFrom(//	t
-""abc"" )// packet A { u8 x, }
-BodyLength ,uint8 u , @calculatedFrom(
-    ""a\""b""
-) @lengthOf( metadata ) @rightPad (' ') // packet A { u8 x, }
-char[10] f32a , }  packet repeatCount { }options  {
-string_ =  i32 ;
-o =	""a	b"" ;
-    i8i8	=
-    ""a\""b"" ; uint8x =
-uint16
-    // " ++ [128512]%N ++ runes_of_ascii " emoji
-    ;
-}")).
-Eval vm_compute in ("<<<M344>>>" ++ check (runes_of_ascii "// " ++ [27880; 37322]%N ++ runes_of_ascii "
-root packet _x {
-//	t
-// packet A { u8 x, }
-@rightPad (
-) zchar[
-    007]
-    Logon @calculatedFrom(""x y""),zchar[
-7]
-string_ @lengthOf(
-Packet /// triple
-)
-`two words`,
-@tag( 007 )	@calculatedFrom(
-    ""x y"" )repeat
-calculatedFrom { // packet A { u8 x, }
-zchar @calculatedFrom( """ ++ [233]%N ++ runes_of_ascii "t" ++ [233]%N ++ runes_of_ascii """
-    // `tick` ""quote"" 'q'
-    )	,
-int32 leftPad , } ,repeat body chars ,	@lengthOf(
-options1
-    ) repeat
-    //	t
-    char[
-255] Foo  ,
-// c
-//
-repeat MetaDataX
-    { pack, } ,char[
-7 ] repeatCount @calculatedFrom(""it's""  ) , }
-    // trailing space 
-    packet Packet {
-    Header
-// " ++ [27880; 37322]%N ++ runes_of_ascii "
-// @lengthOf(
-@lengthOf( uint8x ) `two words` ,} options//	t
-{  } root
-    // " ++ [27880; 37322]%N ++ runes_of_ascii "
-    packet msg_type
-{int32 //x
-body`" ++ [28040; 24687; 31867; 22411]%N ++ runes_of_ascii "`,
-    }
-")).
-Eval vm_compute in ("<<<M927>>>" ++ check (runes_of_ascii "packet msg_type{ trueish	float ,zchar[ 0123456789 ]
-    trueish @lengthOf( i8i8 )
-, i64  Pad ,
-//x
-/// triple
-i64_  @lengthOf(	_x )
-    // a // b
-    ``
-, // `tick` ""quote"" 'q'
-match Foo  as As { [ """ ++ [28040; 24687]%N ++ runes_of_ascii """  , //
-""packet""
-    ,
-    1 , 7
-//
-/// triple
-,3
-, ""a	b""
-    ,  7 ] :
-_x 255
-: Foo , ""x y"" :  i64_ ,
-1 :
-options1 // trailing space 
-,} , lengthOf { //	t
-char[] u128 , u32 o , }
-    ,
-    }
-options {} MetaData len
-    {
-char Logon
-    //	t
-    ,
-repeatCount lengthOf ,
-    Z9_  o ,
-    string MetaDataX
-`
-` , uint32 repeatCount , Header falsey ,
-//	t
-// trailing space 
-} // `tick` ""quote"" 'q'
-MetaData calculatedFrom{ string	Packet `crlf
-line`
-, }
-// packet A { u8 x, }
-")).
-Eval vm_compute in ("<<<M325>>>" ++ check (runes_of_ascii "
-root// packet A { u8 x, }
-packet As
-// c
-// packet A { u8 x, }
-{}	packet charz {metadata @calculatedFrom(
-""{,}"" )
-,repeat
-zchar[	007
-] T
-`tab	here`, repeat tag
-{
-int8 crc `two words` , repeat o// @lengthOf(
-{ repeat
-// " ++ [128512]%N ++ runes_of_ascii " emoji
-// trailing space 
-f32a,
-} , repeat i16 Z9_ `say ""hi""` , zchar[ // @lengthOf(
-3] body @lengthOf( Packet )
-,} , @lengthOf(
-    o ) match uint8x as As
-    {
-255	:
-T ,	},
-f32a
-    @lengthOf( leftPad )
-    // `tick` ""quote"" 'q'
-    ,BodyLength _x `u8 x,` ,
-} packet BodyLength
-{ }
-packet
-leftPad
-{ @leftPad(
-// " ++ [128512]%N ++ runes_of_ascii " emoji
-// packet A { u8 x, }
-' ') repeat zchar[ 10
-]	_x ,}
-    options{ int =65535 ;
-    }
-")).
-Eval vm_compute in ("<<<M602>>>" ++ check (runes_of_ascii "options
-{
-    x
-// " ++ [27880; 37322]%N ++ runes_of_ascii "
-// " ++ [128512]%N ++ runes_of_ascii " emoji
-= true trueish =007 ;float =
-    // trailing space 
-    int64;/// triple
-metadata= true //	t
-} options  { As= ""{,}""	;} packet
-    As{ @rightPad
-    ( '0' ) @leftPad // " ++ [27880; 37322]%N ++ runes_of_ascii "
-( '0' ) char[ 10
-]trueish
-// c
-//	t
-, @calculatedFrom( ""`tick`"" ) Foo
-{
-int64 packetx @calculatedFrom(	""a\""b"" ) `" ++ [28040; 24687; 31867; 22411]%N ++ runes_of_ascii "`
-, repeat int64 int // a // b
-, zchar[007
-    ] Header
-//
-//
-, repeat
-    body
-    , // " ++ [27880; 37322]%N ++ runes_of_ascii "
-}
-    , repeat char[0  ] u8x // packet A { u8 x, }
-, Pad ,
-@rightPad ( '0'  )
-f64 leftPad//	t
-`a\`	, repeat
-    rootA repeatCount `{ , }` , rootA float
-// packet A { u8 x, }
-//x
-`doc`, }")).
-Eval vm_compute in ("<<<M4341>>>" ++ check (runes_of_ascii "packet matchKey {
-    match Header as chars {
-        [0, """ ++ [233]%N ++ runes_of_ascii "t" ++ [233]%N ++ runes_of_ascii """] : body,
-        [42, 10] : msg_type,
-        """ ++ [128512]%N ++ runes_of_ascii """ : options1,
-        7 : roots,
-        ""\n"" : packetx,
-    },
-    zchar[0] A @lengthOf(int),
-    char[] Header `
-    `,// trailing space 
-    repeat float {
-        repeat o,// `tick` ""quote"" 'q'
-        repeat int32 x_y_z `
-        `,
-    },
-    @tag(0)
-    u64 string_ @calculatedFrom(""`tick`"") `two words`,
-    calculatedFrom {
-        matchKey,// packet A { u8 x, }
-        rootA,
-    },
-}
-
-options {
-    chars = """";
-    As = true;
-    Foo = 7;
-    lengthOf = ""a\\""
-}")).
-Eval vm_compute in ("<<<M1352>>>" ++ check (runes_of_ascii "options {tag =""`tick`"" }
-options { chars
-// c
-//
-=
-255 ;
-    // packet A { u8 x, }
-    int =
-""abc"" string_
-=
-    true
-    ;
-    body
-=  false asx = """ ++ [233]%N ++ runes_of_ascii "t" ++ [233]%N ++ runes_of_ascii """ ;// packet A { u8 x, }
-}
-    packet _x //x
-{
-repeat
-o  { char[ 00
-] f32a@calculatedFrom(
-    """"
-)	,
-f32a `a\`  , } , }packet falsey {
-} packet Z9_
-{ @tag( 0 ) @calculatedFrom( ""`tick`"" )
-    // a // b
-    @tag( 00 ) char[ 3 // " ++ [27880; 37322]%N ++ runes_of_ascii "
-] x @calculatedFrom( """"	) ,
-// @lengthOf(
-// packet A { u8 x, }
-Pad  @calculatedFrom( ""\" ++ [233]%N ++ runes_of_ascii """) ,@rightPad (  '0' ) char[]
-    trueish @lengthOf( packetx
-)
-, }
-// c
-")).
-Eval vm_compute in ("<<<M4305>>>" ++ check (runes_of_ascii "packet tag
-	{
-
-    match  asx
-
-as
-    u128 {
-    ""1""
-: T	0123456789 	 // trailing space 
-:
-    rootA ,
-7 : i8i8 ,	65535 
-:  // `tick` ""quote"" 'q'
-	chars,
-
-}
-	,  zchar[
-
-    7 ]
-    options1
-    , zchar[ 255 ]
-
-    asx  ,@leftPad (
-
-'0'
-
-)
-stringy
-	`" ++ [28040; 24687; 31867; 22411]%N ++ runes_of_ascii "`
-
-, 
-u64  zchar
-    @calculatedFrom( 
-        // c
-  ""\n""  )	, len
-    // `tick` ""quote"" 'q'
-	// c
-    @calculatedFrom( ""// no comment"" )
-
-    `" ++ [28040; 24687; 31867; 22411]%N ++ runes_of_ascii "` //	t
-  ,
-@leftPad(
-
-'0' )tag
-    @lengthOf(
-calculatedFrom ),	repeat 
-    //
-	  uint64 
-metadata
-`a\`
-	,
-	} ")).
-Eval vm_compute in ("<<<M3637>>>" ++ check (runes_of_ascii "options {
-    LittleEndian = false;
-    ArrayPrefixLenType = u64;
-    FixedStringPadChar = '0';
-}
-packet Quote {
-    repeat InFlags37 {
-        char[] lastPx,
-    },
-    i16 tag7,
-    char[] f1,
-    zchar[6] Note,
-}
-packet Order {
-    u8 Ref,
-    repeat Quote,
-    repeat string Acct,
-}
-root packet Heartbeat {
-    repeat Quote,
-    @leftPad('0') char[11] OrderId,
-    zchar[8] Ref,
-    u32 Flags,
-    u32 Tail @lengthOf(Body),
-    match Flags as Body {
-        156 : Order,
-        7 : Quote,
-    },
-}
-")).
-Eval vm_compute in ("<<<M4106>>>" ++ check (runes_of_ascii "root packet Foo {
-    match As as rootA {
-        ""CRC32"" : packetx,
-        4294967296 : Header,
-        [0123456789, 255, 0, ""\n"", ""packet""] : BodyLength,
-        [
-            7, 255, 65535, 00, 3,
-            ""packet"", ""abc""
-        ] : f32a,
-    },
-    f32 calculatedFrom @lengthOf(metadata) `crlf
-    line`,
-}//	t
-
-options {
-    // c
-    x_y_z = 7
-    body = zchar[1];
-}
-
-packet i8i8 {
-    string_ {
-        u32 options1 @calculatedFrom(""1""),
-    },
-}// `tick` ""quote"" 'q'")).
-Eval vm_compute in ("<<<M143>>>" ++ check (runes_of_ascii "root packet crc {@calculatedFrom(
-""" ++ [128512]%N ++ runes_of_ascii """)
-BodyLength{x_y_z i8i8
-//
-//
-, int32 uint8x
-`two words` ,	rootA tag , zchar[
-7] matchKey
-    `" ++ [233]%N ++ runes_of_ascii "` ,} , T { x@calculatedFrom( ""a	b"" )
-`// not a comment` ,zchar[ // " ++ [128512]%N ++ runes_of_ascii " emoji
-42 ] /// triple
-A
-, match chars
-as
-    //x
-    len {""packet"" :crc 3//x
-:
-chars [
-0123456789 , ""packet"" ]
-    : pack	[""packet""
-,
-00// " ++ [27880; 37322]%N ++ runes_of_ascii "
-,
-    7 ,""" ++ [28040; 24687]%N ++ runes_of_ascii """, 3
-,  ""packet"",
-    42, 0123456789
-    ] :
-repeatCount	""{,}"" :
-chars
-    ,/// triple
-} ,
-} ,
-}")).
-Eval vm_compute in ("<<<M191>>>" ++ check (runes_of_ascii "packet x
-{ repeat
-    string_
-    { repeat asx	Foo
+7
+: i8i8 [""{,}"", ""// no comment"",
+""" ++ [128512]%N ++ runes_of_ascii """ , 10 , ""\n""	,  ""// no comment"" ,
+""abc""
+    ] : As ,
+[ ""packet""
     /// triple
-    ,int16 i8i8 , char[] matchKey ,
-// @lengthOf(
-// trailing space 
-match calculatedFrom as // a // b
-roots  { 3
-: x_y_z , }
-    , }
-, @lengthOf(x ) repeat o `say ""hi""`
-    ,//	t
-char[] string_	`" ++ [28040; 24687; 31867; 22411]%N ++ runes_of_ascii "`
-, @lengthOf( f32a )	match
-    Pad as
-    A //	t
-{ ""a	b"": u128 , [""\" ++ [233]%N ++ runes_of_ascii """ ,
-65535
-    , 255
-,""CRC32""
-,
-1 ]
-    : i8i8
-0123456789 : falsey //	t
-, } , }packet zchar { }
+    ,  ""a\""b"", 10,""x y"",	""{,}"" ,
+007
+, 1,
+""// no comment""
+    ] :
+BodyLength ,
+} , // `tick` ""quote"" 'q'
+@tag( 42 )
+repeat string x_y_z	, f32a @calculatedFrom(
+""""	) ,match u128 // a // b
+as // a // b
+Z9_ { """ ++ [28040; 24687]%N ++ runes_of_ascii """ : lengthOf ""\" ++ [233]%N ++ runes_of_ascii """
+//
+// `tick` ""quote"" 'q'
+: string_ ,}, @tag( 4294967296	)  u64 f32a , string	roots@calculatedFrom(	""\" ++ [233]%N ++ runes_of_ascii """ ) // `tick` ""quote"" 'q'
+`// not a comment`
+, //	t
+}
 ")).
-Eval vm_compute in ("<<<M408>>>" ++ check (runes_of_ascii "packet body{ @tag(42 )
-rootA Logon `line1
-line2`
-, repeatCount{ repeat lengthOf x_y_z , Pad
-    , repeat falsey packetx
-    ,	string rootA`` /// triple
-,} ,
+Eval vm_compute in ("<<<M28>>>" ++ check (runes_of_ascii "packet
+tag { repeat
+    //
+    T MetaDataX
+    , @calculatedFrom(
+//
+/// triple
+""`tick`""  ) @tag( 007 ) leftPad `tab	here` , @tag( 0123456789  )
+char x , @tag(0 ) u64 tag
+    ,
+i8 roots
+    // a // b
+    ,
+    @lengthOf(
+float ) @tag( 10 )
+// c
+// `tick` ""quote"" 'q'
+body { chars
+{repeat int8  body , }  , repeat Header {char[]
+    leftPad	, },	match  Logon as zchar  { 4294967296 :
+    len , ""a\""b"":A //
+00
+: x_y_z,
+} , repeat i16	options1
+, }
+    , @calculatedFrom( """ ++ [128512]%N ++ runes_of_ascii """)@rightPad ( '0'
+) i16 Pad , //
+int64
+    As @lengthOf(
+crc ) , } MetaData x_y_z {u crc
+, } root packet
+Z9_{ @calculatedFrom( ""{,}"" ) tag, @lengthOf( lengthOf ) zchar[  42 ] crc //x
+`" ++ [233]%N ++ runes_of_ascii "`
+// a // b
+// @lengthOf(
+, char[ 007 ] options1 ,
+}packet
+    // `tick` ""quote"" 'q'
+    x {char	trueish
+    ,	char[] packetx @calculatedFrom(""" ++ [28040; 24687]%N ++ runes_of_ascii """)
+    `line1
+line2` ,  zchar[
+1
+    ]
+    Foo // " ++ [128512]%N ++ runes_of_ascii " emoji
+, zchar[ 00 ]
+A , match msg_type as tag { """" : leftPad , [ """ ++ [128512]%N ++ runes_of_ascii """ ,
+    0 ,10
+    ,  3//	t
+] :
+Z9_,  ""it's"":	float , 10 : calculatedFrom ""x y"" // @lengthOf(
+:
+    f32a
+    007	: roots
+    , } // `tick` ""quote"" 'q'
+,} packet
+    u{ // trailing space 
+@calculatedFrom( ""\n"" ) @calculatedFrom( ""a\""b"" )	i64_
+rootA , match // @lengthOf(
+x as Logon {
+    1
+:
+    body,
+""a\\"" /// triple
+: _x ""packet"" : BodyLength,
+},
+    //x
+    @rightPad ( '\x00'//x
+) @calculatedFrom( """ ++ [128512]%N ++ runes_of_ascii """ )	repeat stringy { match
+//x
+// packet A { u8 x, }
+T as float { ""a\\"" : len
+    0:
+BodyLength , [ ""it's""
+, ""{,}"" , 255 // a // b
+, 0123456789, ""a\\"" ] :
+    Logon, 3:rootA
+    // " ++ [27880; 37322]%N ++ runes_of_ascii "
+    ,
+    }
+//
+// packet A { u8 x, }
+,
+} ,//
+u16 uint8x `{ , }`,
+// trailing space 
+//x
 @leftPad
     // a // b
-    ('\x00' )char[
-0
-]
-    roots , msg_type
-,
-u128 charz
-    ,
-    string crc`" ++ [28040; 24687; 31867; 22411]%N ++ runes_of_ascii "`
-    , match Header as Packet
-    {
-10  :x , [
-//x
+    (
+'0' )  string i64_@lengthOf(  stringy  ),
 // `tick` ""quote"" 'q'
-""1""] : matchKey
-, 10
-: // @lengthOf(
-i64_ 255// a // b
-:T , } ,
-} packet	o { }")).
-Eval vm_compute in ("<<<M4491>>>" ++ check (runes_of_ascii "packet packetx {
-    lengthOf @lengthOf(T) `// not a comment`,
-    char[42] Header `two words`,
+// @lengthOf(
+u64 leftPad@calculatedFrom( // " ++ [27880; 37322]%N ++ runes_of_ascii "
+""a	b"" ) , repeat // @lengthOf(
+Header MetaDataX `a\`
+, @lengthOf(stringy
+    )	Packet
+leftPad , @tag( 00 ) repeat zchar _x `tab	here` , i32	matchKey , }
+")).
+Eval vm_compute in ("<<<M3904>>>" ++ check (runes_of_ascii "  options 
+{
+metadata
+= char[
+4294967296
+
+];
+	} packet  f32a
+
+    { 
+match Z9_
+as repeatCount
+	{
+
+    3:
+
+    crc
+	, ""{,}""
+    : 
+pack, },
+	char[]calculatedFrom 
+@lengthOf(	// @lengthOf(
+    MetaDataX) , @calculatedFrom(
+""`tick`""
+    )	// " ++ [128512]%N ++ runes_of_ascii " emoji
+	x_y_z 
+	    // " ++ [27880; 37322]%N ++ runes_of_ascii "
+      , 
+i8 leftPad
+    ,i8  uint8x
+    @calculatedFrom( ""packet""  ) // trailing space 
+  `// not a comment`
+,
+
+@calculatedFrom(  """" ) @tag( 007	)char[
+10
+
+]
+    T
+	@calculatedFrom(
+	""""//
+
+) ,
+    u8x
+{zchar @lengthOf(// packet A { u8 x, }
+      u) `{ , }` 
+// c
+  ,
+} , 
+float
+    `say ""hi""` 
+, 
+i64
+
+    packetx
+,
+    @lengthOf( BodyLength  ) string	calculatedFrom
+,
+
+    }packet  MetaDataX // " ++ [27880; 37322]%N ++ runes_of_ascii "
+    {  @calculatedFrom( ""{,}""  ) 
+match	/// triple
+metadata
+
+    as 	 //
+  _x  {
+""1"":  // c
+
+uint8x,
+
+""{,}""
+	:falsey	}	,
+    }
+packet // " ++ [27880; 37322]%N ++ runes_of_ascii "
+  Logon
+    {
+    o
+
+@lengthOf(
+i8i8
+    )
+
+    ,
+@rightPad(
+
+'0' )
+	int64 msg_type
+, char
+    calculatedFrom
+	,
+@tag(255 
+)
+
+i8i8
+
+@calculatedFrom(
+""x y""	)
+
+    ,
+i8i8  // @lengthOf(
+    	@calculatedFrom( ""\" ++ [233]%N ++ runes_of_ascii """ )
+
+    , 
+@tag( 0123456789
+
+)lengthOf,
+
+@lengthOf( // `tick` ""quote"" 'q'
+  o)
+@tag( 10
+) match options1 as 
+u {
+
+    ""1""
+    : Pad
+	, // c
+  ""\" ++ [233]%N ++ runes_of_ascii """	: metadata ,	// @lengthOf(
+	} ,
+	@tag( // " ++ [128512]%N ++ runes_of_ascii " emoji
+	1
+
+    )  @tag(	65535 )
+	@lengthOf( Packet 
+) repeat  T,
+	@tag( 
+4294967296
+    ) 
+match
+x_y_z 
+as 
+uint8x
+{
+""{,}""
+:
+
+uint8x
+	7: metadata,	7
+	: i64_
+
+    [  """ ++ [233]%N ++ runes_of_ascii "t" ++ [233]%N ++ runes_of_ascii """,
+
+    ""CRC32"", 	 // trailing space 
+    ""packet""
+    ,
+00 , 
+65535
+	, ""x y""
+,	// " ++ [27880; 37322]%N ++ runes_of_ascii "
+
+	""packet"" 	 //x
+] :	metadata ,	// packet A { u8 x, }
+	""packet"" :uint8x 
+,	}
+    , repeat
+
+    x
+
+    ,
+    }
+
+")).
+Eval vm_compute in ("<<<M948>>>" ++ check (runes_of_ascii "options { o // c
+= ""it's""; }
+/// triple
+/// triple
+packet calculatedFrom { int32 Header @calculatedFrom( ""x y""
+)
+    `" ++ [28040; 24687; 31867; 22411]%N ++ runes_of_ascii "`	,
+    @tag( // a // b
+0 ) @lengthOf( f32a // " ++ [128512]%N ++ runes_of_ascii " emoji
+)match i64_ as T
+    // " ++ [27880; 37322]%N ++ runes_of_ascii "
+    { 255
+    :
+Foo 1
+: T
+,
+    ""a	b"":  Header , 1 : x, } , } root packet options1 {
+@leftPad ( // a // b
+' ' )
+    match
+uint8x as lengthOf  { ""`tick`""
+    // c
+    :
+x_y_z ,
+} , @calculatedFrom( ""a\""b""
+)repeat
+// trailing space 
+// " ++ [27880; 37322]%N ++ runes_of_ascii "
+body`
+`  ,
+char[ 10 ] float
+    // c
+    ,match
+stringy as repeatCount {[
+42
+// c
+/// triple
+, ""`tick`""
+    ]:
+    float , //	t
+""abc"": matchKey
+, // a // b
+7
+    :	As
+    255
+: pack
+,
+""{,}"" : len
+,
+3
+:	metadata	, } ,char[3 ] trueish @calculatedFrom(
+""CRC32""
+    )
+,
+    repeat charz { match Pad	as Z9_ { ""packet"" : f32a , ""{,}""
+: f32a 7 : _x ,  00 :repeatCount , 4294967296 : asx , ""CRC32""
+    : u128//x
+} ,
+    char[ 42 ] //	t
+crc `two words` ,
+// @lengthOf(
+//	t
+repeat Foo // @lengthOf(
+`doc` // a // b
+,} , } options // `tick` ""quote"" 'q'
+{ falsey =
+    false ;// trailing space 
+Header
+=true ; // `tick` ""quote"" 'q'
+packetx = u64
+    ; calculatedFrom
+//
+// a // b
+= ""\n"";
+    } packet
+    body {@tag( 42  ) repeat
+i16
+    u128`// not a comment`
+    ,@tag( 0 )@tag(  0123456789 ) @calculatedFrom( ""\n""	)
+zchar[ 255 ] x_y_z @lengthOf( stringy	) ,
+f32a @lengthOf(
+Logon
+    )
+,  repeat zchar[ 10] _x , float64 charz
+`` ,
+Pad
+@lengthOf(
+    u ) , body ``, }
+")).
+Eval vm_compute in ("<<<M4036>>>" ++ check (runes_of_ascii "
+packet 
+Packet {
+
+MetaDataX{ 
+	    // " ++ [128512]%N ++ runes_of_ascii " emoji
+// trailing space 
+  zchar[ 
+
+// @lengthOf(
+	255 ]
+crc
+@calculatedFrom( ""`tick`""  )
+`doc` , 	 // c
+  }
+    , u32  As
+    `
+`
+
+    ,
+@lengthOf(
+chars )f64
+
+leftPad `// not a comment` ,
+
+    repeat char[ 3
+	]
+len 
+`doc`, 
+match
+    u8x
+    as chars {  4294967296 
+:
+f32a
+
+,
+
+    [ 255 
+,4294967296 
+]: string_
+	0 :	chars
+	,  // packet A { u8 x, }
+""a\""b""	:
+    options1
+
+    7 :  falsey
+
+    ,
+
+},
+	@lengthOf(	// c
+    len 
+    // `tick` ""quote"" 'q'
+  // @lengthOf(
+
+) 
+repeat
+	char[
+10  
+      // " ++ [27880; 37322]%N ++ runes_of_ascii "
+  	] Header
+    `crlf
+line` 
+,  // " ++ [27880; 37322]%N ++ runes_of_ascii "
+
+	rootA
+asx
+`two words` , }
+
+packet //x
+    	Packet {
+
+@tag(//
+	00)u16 asx,
+	@calculatedFrom(
+
+""a\""b""
+
+    )
+charz  @lengthOf(
+	a1
+	),
+    @lengthOf( asx
+	)
+repeat
+string
+
+    falsey ,u32
+options1
+
+@lengthOf(
+packetx	) `it's`	//x
+  	,
+} packet  metadata{ 
+int16
+    i8i8	, i32 tag 
+
+//x
+
+  //
+    `line1
+line2`
+	, @calculatedFrom(
+	""a\\"" 
+
+//x
+	//	t
+    ) 	 // trailing space 
+    @lengthOf(
+repeatCount
+) 
+MetaDataX
+    {
+repeat
+
+    x_y_z , }
+,
+    lengthOf
+tag `" ++ [233]%N ++ runes_of_ascii "` ,
+}  MetaData//	t
+  Foo
+    {
+	body 
+chars
+, char[] asx
+    `// not a comment`
+, char
+
+u8x 
+
+    //
+	  // a // b
+	,
+	x 
+trueish `crlf
+line`
+
+,
+
+char[]
+	options1 `u8 x,`
+, } ")).
+Eval vm_compute in ("<<<M867>>>" ++ check (runes_of_ascii "packet asx { a1
+{ match
+pack
+//	t
+//	t
+as
+body {
+    255:	rootA , } ,
+x_y_z
+//x
+//	t
+@calculatedFrom(
+"""" ) ,repeat A metadata, }
+,	match
+    // `tick` ""quote"" 'q'
+    stringy
+as BodyLength { 00
+// @lengthOf(
+// `tick` ""quote"" 'q'
+:charz ,
+[00
+,
+    65535
+, ""a\\"",
+    ""{,}""
+,0
+    // trailing space 
+    ]
+:
+lengthOf ,	[ ""\" ++ [233]%N ++ runes_of_ascii """ ] :
+chars [4294967296 , 4294967296 ,
+/// triple
+//	t
+""\n"" , """ ++ [233]%N ++ runes_of_ascii "t" ++ [233]%N ++ runes_of_ascii """ ]  :	Foo , [ 42
+    ,00//x
+, ""// no comment""
+    ,
+    """",""`tick`""
+    , ""1"" , 3,
+""packet"" ]:
+matchKey , /// triple
+""\n"" :
+repeatCount
+, }	, repeat chars , repeat o lengthOf//
+`it's` , x { uint16
+A`doc` ,match	A as
+pack	{
+    ""abc"" :u8x ,007 :BodyLength,	""a\""b"" : charz, 7: _x ,
+0 :Logon , } ,
+string_, Logon @calculatedFrom( """ ++ [128512]%N ++ runes_of_ascii """
+)  `` , }// c
+, @calculatedFrom(""" ++ [28040; 24687]%N ++ runes_of_ascii """ )
+    // `tick` ""quote"" 'q'
+    @lengthOf( body
+    // a // b
+    ) char[] a1 // c
+`a\` , repeat uint8x msg_type
+    , repeat char[ 0123456789
+    ]
+/// triple
+/// triple
+len ,char[ 10 ] uint8x@calculatedFrom( ""CRC32""
+)
+,  }
+packet Header {
+// c
+// @lengthOf(
+@tag(65535 )options1 ,  @rightPad
+( '\x00'
+)repeat
+_x ,
+@calculatedFrom(// c
+""\" ++ [233]%N ++ runes_of_ascii """
+    // " ++ [27880; 37322]%N ++ runes_of_ascii "
+    )int16 len	`crlf
+line` ,
+f32 trueish,
+}")).
+Eval vm_compute in ("<<<M1394>>>" ++ check (runes_of_ascii "options {
+	StringPrefixLenType = u16;
+	ArrayPrefixLenType = u16;
+}
+
+packet SampleBinary {
+	uint16 MsgType `" ++ [28040; 24687; 31867; 22411]%N ++ runes_of_ascii "`,
+	u16 BodyLenght @lengthOf(Body) `" ++ [28040; 24687; 20307; 38271; 24230]%N ++ runes_of_ascii "`,
+	match MsgType as Body {
+		1 : Logon,
+		2 : Logout,
+		3 : Heartbeat,
+		4 : RiskControlRequest,
+		5 : RiskControlResponse,
+	},
+	@calculatedFrom(""CRC32"")
+	u32 Ckecksum `" ++ [26657; 39564; 21644]%N ++ runes_of_ascii "`,
 }
 
 packet Logon {
-    repeat string i64_ `u8 x,`,
-    @rightPad()
-    match calculatedFrom as stringy {
-        [0123456789, 7, 1, ""1"", ""`tick`""] : zchar,
-        3 : packetx,
-        [10, ""CRC32""] : x,
-        [7] : Foo,
-        [10, 65535, 7, ""CRC32"", ""{,}""] : A,
-        00 : rootA,
+	@leftPad('0')
+	char[10] UserName `" ++ [29992; 25143; 21517]%N ++ runes_of_ascii "`,
+	string Password `" ++ [23494; 30721]%N ++ runes_of_ascii "`,
+	uint64 ClientId `" ++ [23458; 25143; 31471]%N ++ runes_of_ascii "ID`,
+	u16 HeartbeatInterval `" ++ [24515; 36339; 38388; 38548]%N ++ runes_of_ascii "`,
+}
+
+packet Logout {
+	@rightPad('0')
+	char[10] UserName `" ++ [29992; 25143; 21517]%N ++ runes_of_ascii "`,
+	uint64 ClientId `" ++ [23458; 25143; 31471]%N ++ runes_of_ascii "ID`,
+}
+
+packet Heartbeat {
+}
+
+packet RiskControlRequest {
+	string UniqueOrderId `" ++ [21807; 19968; 35746; 21333; 21495]%N ++ runes_of_ascii "`,
+	char[16] ClOrdID `" ++ [23458; 25143; 35746; 21333; 21495]%N ++ runes_of_ascii "`,
+	char[3] MarketID `" ++ [24066; 22330]%N ++ runes_of_ascii "id`,
+	char[12] SecurityID `" ++ [35777; 21048; 20195; 30721]%N ++ runes_of_ascii "`,
+	char Side `" ++ [20080; 21334; 26041; 21521]%N ++ runes_of_ascii "`,
+	char OrderType `" ++ [35746; 21333; 31867; 22411]%N ++ runes_of_ascii "`,
+	u64 Price `" ++ [20215; 26684]%N ++ runes_of_ascii "`,
+	u32 Qty `" ++ [25968; 37327]%N ++ runes_of_ascii "`,
+	repeat string ExtraInfo `" ++ [38468; 21152; 20449; 24687]%N ++ runes_of_ascii "`,
+	repeat SubOrder {
+		char[16] ClOrdID `" ++ [23376; 35746; 21333; 21495]%N ++ runes_of_ascii "`,
+		u64 Price `" ++ [23376; 35746; 21333; 20215; 26684]%N ++ runes_of_ascii "`,
+		u32 Qty `" ++ [23376; 35746; 21333; 25968; 37327]%N ++ runes_of_ascii "`,
+	},
+}
+
+packet RiskControlResponse {
+	string UniqueOrderId `" ++ [21807; 19968; 35746; 21333; 21495]%N ++ runes_of_ascii "`,
+	i32 Status `" ++ [29366; 24577]%N ++ runes_of_ascii "`,
+	string Msg `" ++ [32467; 26524; 20449; 24687]%N ++ runes_of_ascii "`,
+	repeat Detail,
+}
+
+packet Detail {
+	string RuleName `" ++ [35268; 21017; 21517; 31216]%N ++ runes_of_ascii "`,
+	u16 Code `" ++ [21407; 22240; 20195; 30721]%N ++ runes_of_ascii "`,
+}")).
+Eval vm_compute in ("<<<M674>>>" ++ check (runes_of_ascii "root packet  Foo	{
+repeat
+Packet { match i64_ as f32a{ ""1"" : Z9_, } ,
+match
+    // " ++ [128512]%N ++ runes_of_ascii " emoji
+    options1  as stringy{
+[
+1
+] :Foo	1 : x_y_z
+    // trailing space 
+    ,
+// packet A { u8 x, }
+// packet A { u8 x, }
+[ 7 , 42
+,
+""1""  , """ ++ [233]%N ++ runes_of_ascii "t" ++ [233]%N ++ runes_of_ascii """ ,
+""\" ++ [233]%N ++ runes_of_ascii """
+, """ ++ [128512]%N ++ runes_of_ascii """ , ""{,}"" ] // packet A { u8 x, }
+: float,
+0123456789 : x ,	} , }
+, @lengthOf(// `tick` ""quote"" 'q'
+u // " ++ [128512]%N ++ runes_of_ascii " emoji
+) char[] // " ++ [128512]%N ++ runes_of_ascii " emoji
+MetaDataX ,@tag( 4294967296
+) u128 , @calculatedFrom( """ ++ [128512]%N ++ runes_of_ascii """ )@tag( 4294967296 ) MetaDataX
+    // @lengthOf(
+    @calculatedFrom( """ ++ [128512]%N ++ runes_of_ascii """
+) `tab	here` ,
+    } packet BodyLength
+    {
+    char[ 0]u128	``// packet A { u8 x, }
+, i64_
+    ,
+    repeat//
+matchKey{
+    char[]
+x  `u8 x,`
+, u128 f32a `u8 x,`
+, char[	42 ]  calculatedFrom ,packetx @calculatedFrom(// packet A { u8 x, }
+""" ++ [128512]%N ++ runes_of_ascii """ ) `a\`  , } , @lengthOf( Foo ) @rightPad
+(
+    // trailing space 
+    '0'  ) int64	o
+// trailing space 
+// `tick` ""quote"" 'q'
+@lengthOf( float	) , }
+    MetaData
+// a // b
+// `tick` ""quote"" 'q'
+_x
+// @lengthOf(
+// " ++ [27880; 37322]%N ++ runes_of_ascii "
+{
+u16 x_y_z ,
+    //x
+    zchar[ 42 ] falsey , }")).
+Eval vm_compute in ("<<<M4262>>>" ++ check (runes_of_ascii "packet zchar {
+    uint8x {
+        MetaDataX,
+        match stringy as calculatedFrom {
+            """" : options1,
+            ""// no comment"" : u,
+            ""\" ++ [233]%N ++ runes_of_ascii """ : body,
+            [""abc"", ""it's"", 007] : packetx,
+            65535 : roots,
+        },
+        zchar[10] lengthOf `two words`,
+    },
+    //
+    // packet A { u8 x, }
+}
+
+root packet Header {
+    repeat f32a o `two words`,
+    @lengthOf(f32a)
+    char[42] uint8x,
+    @tag(42)
+    float @lengthOf(MetaDataX),
+    string T,
+    match _x as leftPad {
+        0123456789 : stringy,
+    },
+    @leftPad()
+    repeat uint8x {
+        string_ {
+            char[255] a1 @calculatedFrom(""abc""),
+            metadata @lengthOf(asx),
+        },
+        repeat falsey,
+        Logon {
+            As,
+            repeat char[] u,
+        },
+    },
+    @leftPad(' ')
+    char[10] charz @lengthOf(float),
+    @calculatedFrom(""" ++ [233]%N ++ runes_of_ascii "t" ++ [233]%N ++ runes_of_ascii """)
+    i64 trueish `two words`,
+}
+
+options {
+    options1 = 7;
+    u = """";
+}")).
+Eval vm_compute in ("<<<M712>>>" ++ check (runes_of_ascii "root packet //
+Pad {
+    char[
+00
+]
+stringy @calculatedFrom( ""\" ++ [233]%N ++ runes_of_ascii """ ) `it's`,zchar{
+falsey
+Header // @lengthOf(
+`two words` , Packet
+@lengthOf( int ) `` ,charz
+asx , u32 A , }	, string
+    metadata, repeat
+char[
+1 ]	crc`
+`
+, Foo `it's` ,}packet
+    // c
+    rootA
+    { repeat
+    i32 matchKey , repeat x_y_z `// not a comment`, roots
+    @calculatedFrom(
+""\n"" ),
+x_y_z {
+    zchar[ 42]
+// packet A { u8 x, }
+// " ++ [27880; 37322]%N ++ runes_of_ascii "
+charz@lengthOf( u128 ) // " ++ [128512]%N ++ runes_of_ascii " emoji
+, leftPad`line1
+line2` ,}
+, falsey crc`crlf
+line`,
+    repeat
+// " ++ [128512]%N ++ runes_of_ascii " emoji
+// c
+char
+i64_ `a\` , }
+    packet Packet { repeat //	t
+i64_{ repeat metadata  { repeatCount `{ , }`,  int16// c
+o , },
+    //	t
+    repeat uint64	A , float @calculatedFrom(
+""a\""b""
+    )
+, zchar[	7 ]
+T , }
+, @leftPad
+( '\x00')
+    repeatCount	`a\` , } MetaData o // " ++ [27880; 37322]%N ++ runes_of_ascii "
+{
+    // a // b
+    int
+// packet A { u8 x, }
+// @lengthOf(
+repeatCount`line1
+line2` ,} options	{ msg_type
+=
+00//x
+}")).
+Eval vm_compute in ("<<<M747>>>" ++ check (runes_of_ascii "packet u8x {@tag( 0)
+match Header as	packetx
+// " ++ [128512]%N ++ runes_of_ascii " emoji
+//x
+{""\n"":	o , 0 :
+    Foo ,4294967296: rootA
+,
+    255 /// triple
+:i8i8 }
+,// `tick` ""quote"" 'q'
+repeat //	t
+uint8 stringy , chars ,
+uint64 options1 `say ""hi""`
+,@lengthOf( float )
+    string leftPad ,  x body // packet A { u8 x, }
+`line1
+line2`
+, @calculatedFrom(  ""// no comment"" ) uint16// a // b
+chars @calculatedFrom(
+""`tick`"" ) , }packet
+    Header {@calculatedFrom(
+    ""\" ++ [233]%N ++ runes_of_ascii """
+)
+zchar[ 007 ] As @lengthOf(
+    // @lengthOf(
+    Header )
+, Header
+// a // b
+//x
+@lengthOf( leftPad ) `doc` ,
+    repeat zchar	calculatedFrom ,	@lengthOf( float// `tick` ""quote"" 'q'
+) zchar[ 0123456789
+    ] trueish`` /// triple
+,
+    match x as
+string_ {
+[
+255] : A ,
+""abc"" : Packet , [//x
+""`tick`""
+    ,10
+    ]
+: Pad,
+    }
+,}  packet len {// " ++ [128512]%N ++ runes_of_ascii " emoji
+i8i8 body , } MetaData x
+    {float32 Header , uint8 A ,i8i8
+o , }
+
+")).
+Eval vm_compute in ("<<<M4136>>>" ++ check (runes_of_ascii "
+
+  packet 
+Pad{@leftPad  (	'\x00'	)
+
+    @tag(  42
+)
+
+@rightPad  (
+' ' )uint8 
+asx
+// c
+  ,	@rightPad
+    ( )string
+a1
+	,
+u8x
+@calculatedFrom(
+	""" ++ [128512]%N ++ runes_of_ascii """) 
+, 
+@tag(1
+	)
+    zchar[
+    255 ]u128
+, @tag(
+00 )
+match
+//x
+      //	t
+  u128 as
+    zchar {
+    3
+	:
+	tag  , 
+[ """ ++ [233]%N ++ runes_of_ascii "t" ++ [233]%N ++ runes_of_ascii """
+
+]  : // " ++ [27880; 37322]%N ++ runes_of_ascii "
+	  int
+
+    ,
+    } , @leftPad
+    (	) zchar[
+    7]
+zchar @lengthOf(
+lengthOf	)  , 
+repeat
+Packet Foo
+`a\` , @lengthOf(msg_type 
+)@rightPad
+	(	'0' ) @tag(
+
+255 )string	tag
+
+//	t
+	//
+@lengthOf(roots // a // b
+  ) `say ""hi""`,	repeat 	 // " ++ [128512]%N ++ runes_of_ascii " emoji
+    	Logon f32a, }packet uint8x  {
+    // trailing space 
+	@rightPad
+	( ' '
+
+) 
+@lengthOf(
+Header
+) zchar[ 7] u,
+	} // " ++ [128512]%N ++ runes_of_ascii " emoji
+    MetaData
+    a1 {rootA msg_type
+
+    ,
+u16  
+  /// triple
+    	lengthOf `it's`
+	,
+	f32
+
+    u8x,	}  
+  // c
+  packet	trueish
+
+{
+}
+")).
+Eval vm_compute in ("<<<M4210>>>" ++ check (runes_of_ascii "packet f32a {
+    @calculatedFrom(""1"")
+    _x {
+        string metadata @calculatedFrom(""`tick`"") `// not a comment`,
+        match Foo as len {
+            42 : Z9_,
+            //x
+        },
+    },
+}
+
+packet options1 {
+    @lengthOf(A)
+    roots @lengthOf(msg_type) `line1
+        line2`,
+    int32 a1 `it's`,
+    @calculatedFrom(""packet"")
+    repeat string T,
+    @lengthOf(i64_)
+    @calculatedFrom(""packet"")
+    @tag(007)
+    int16 asx @calculatedFrom(""it's"") `doc`,
+    repeat i32 charz,
+    metadata `// not a comment`,
+}
+
+packet Logon {
+}
+
+options {
+}
+
+root packet tag {
+    @lengthOf(Logon)
+    charz {
+        string stringy `// not a comment`,
+        uint64 int,
+        char i64_ `it's`,
+    },
+    //	t
+    //
+    u8 i64_,
+    zchar[1] float,
+}/// triple")).
+Eval vm_compute in ("<<<M4017>>>" ++ check (runes_of_ascii "  options
+
+    {leftPad
+
+    =
+	""{,}"" f32a
+    =
+true trueish= 
+zchar[ 007 
+]
+	; 
+crc
+    // " ++ [27880; 37322]%N ++ runes_of_ascii "
+
+	// @lengthOf(
+  = ""`tick`""
+    ; // c
+	}//x
+	root
+packet body
+
+{
+asx
+
+    @lengthOf( f32a	// `tick` ""quote"" 'q'
+)	`` ,f64  body
+@lengthOf(
+int
+    )
+	,
+
+    zchar[ 255  ]	BodyLength ,
+
+    zchar[
+	7
+
+    ]leftPad
+    /// triple
+	// packet A { u8 x, }
+	`line1
+line2`,
+@lengthOf(	asx)u128
+	@lengthOf(  BodyLength ) 
+`// not a comment`
+    ,
+
+@lengthOf(  As
+    )	char[
+	42
+
+]_x
+
+    @lengthOf(i8i8 )`line1
+line2` 
+,
+    char[1 //	t
+	] 
+      // a // b
+	options1 
+@calculatedFrom(
+
+""packet"")
+
+    `say ""hi""`  ,}  options
+
+{leftPad 
+= 007 ;
+charz=false repeatCount 
+=""// no comment""
+u  // a // b
+=
+	0123456789
+	} ")).
+Eval vm_compute in ("<<<M546>>>" ++ check (runes_of_ascii "// a // b
+packet  rootA
+{
+@lengthOf( Packet
+    )	Logon { char[ 7 ]
+    /// triple
+    T //
+`
+`
+    // @lengthOf(
+    ,}, @lengthOf(  rootA
+) repeat zchar[00 ]	Header ,
+// c
+// packet A { u8 x, }
+repeat i8i8 {
+match Foo as i8i8 {
+[ 4294967296
+, 1 ,7, ""\" ++ [233]%N ++ runes_of_ascii """, ""\n"" ,
+42 , 255 ,007
+] : options1
+    ,
+4294967296 : pack
+""""
+:u8x,[
+65535 ,  ""\n""
+] :  pack , ""`tick`"" : Z9_ },float64 stringy ,} ,	@calculatedFrom(
+""`tick`""
+)x
+{
+A @lengthOf(
+    crc
+    ), char[ 00
+] roots
+, }, @lengthOf( int
+) // " ++ [27880; 37322]%N ++ runes_of_ascii "
+@lengthOf(
+    u8x	)// @lengthOf(
+@lengthOf(
+    a1 ) uint16 trueish
+    @calculatedFrom(
+    ""a\\""
+) //x
+, Header@lengthOf(MetaDataX )
+    `say ""hi""`  , roots	@lengthOf( a1 ),
+    }
+// " ++ [128512]%N ++ runes_of_ascii " emoji
+")).
+Eval vm_compute in ("<<<M579>>>" ++ check (runes_of_ascii "packet
+    A{
+    repeatCount
+    {
+    // " ++ [27880; 37322]%N ++ runes_of_ascii "
+    repeat string//	t
+falsey
+`" ++ [233]%N ++ runes_of_ascii "` , x Z9_ //x
+,rootA repeatCount`a\` , repeat // " ++ [128512]%N ++ runes_of_ascii " emoji
+char[]
+x_y_z
+``, }
+,} root packet
+    //
+    int
+    { @calculatedFrom( ""\n"") @calculatedFrom(
+    ""a\\"" // trailing space 
+) repeat lengthOf repeatCount `two words`
+// packet A { u8 x, }
+// c
+,} root packet
+BodyLength {
+@calculatedFrom( ""`tick`"" ) repeat asx { zchar[ 10 ]
+MetaDataX , repeat
+    char[ 4294967296 ] rootA`say ""hi""`
+    , uint64 As
+`" ++ [233]%N ++ runes_of_ascii "` ,
+chars
+u , } ,@tag( 0123456789	) @tag( 0 )string
+roots	`" ++ [28040; 24687; 31867; 22411]%N ++ runes_of_ascii "` ,
+    u8 crc /// triple
+`{ , }` , // a // b
+@calculatedFrom(
+    ""CRC32"")repeat i64_ _x ,
+char Packet , }")).
+Eval vm_compute in ("<<<M3975>>>" ++ check (runes_of_ascii "packet i8i8 {
+}
+
+options {
+    options1 = true;// " ++ [27880; 37322]%N ++ runes_of_ascii "
+}
+
+packet pack {
+    //	t
+    lengthOf {
+        char[10] len @calculatedFrom(""\" ++ [233]%N ++ runes_of_ascii """) `a\`,
+    },
+}
+
+root packet repeatCount {
+    u128 len `line1
+        line2`,
+    @calculatedFrom(""// no comment"")
+    repeat char[] zchar `// not a comment`,
+    a1,
+    repeat zchar[1] u `crlf
+        line`,
+}
+
+packet lengthOf {
+    @calculatedFrom(""packet"")
+    // a // b
+    float64 trueish @lengthOf(Z9_),
+    @leftPad()
+    match options1 as A {
+        ""it's"" : len,
+        [""""] : T,
+        [00] : calculatedFrom,
+        1 : MetaDataX,
+        4294967296 : u,
+    },
+}
+//")).
+Eval vm_compute in ("<<<M386>>>" ++ check (runes_of_ascii "// @lengthOf(
+root packet uint8x { repeat
+x_y_z //	t
+{ zchar[ 10
+] stringy@calculatedFrom(// `tick` ""quote"" 'q'
+""x y"" ) , // a // b
+}//	t
+,
+    i64
+body @lengthOf( options1
+    ) `u8 x,` ,lengthOf  {
+    // packet A { u8 x, }
+    match T
+as
+len {007
+    :
+    BodyLength 1 :	_x ""\n"" :	chars , 255
+: /// triple
+a1 , } , f64 roots
+@lengthOf(  Foo)
+    , lengthOf @lengthOf(  x_y_z
+    )`
+`,	repeat // `tick` ""quote"" 'q'
+string tag
+`tab	here` , } , // @lengthOf(
+} options
+{
+    falsey = char[ 0123456789
+    ]roots
+    // `tick` ""quote"" 'q'
+    = int64 // packet A { u8 x, }
+; A	= 007 }
+")).
+Eval vm_compute in ("<<<M3826>>>" ++ check (runes_of_ascii "// @lengthOf(
+root packet uint8x {
+    repeat x_y_z {
+        zchar[10] stringy @calculatedFrom(""x y""),// a // b
+    },
+    i64 body @lengthOf(options1) `u8 x,`,
+    lengthOf {
+        // packet A { u8 x, }
+        match T as len {
+            007 : BodyLength,
+            1 : _x,
+            ""\n"" : chars,
+            255 : a1,
+        },
+        f64 roots @lengthOf(Foo),
+        lengthOf @lengthOf(x_y_z) `
+                `,
+        repeat string tag `tab	here`,
+    },// @lengthOf(
+}
+
+options {
+    falsey = char[0123456789]
+    roots = int64;
+    A = 007
+}")).
+Eval vm_compute in ("<<<M310>>>" ++ check (runes_of_ascii "packet  T{ i8 MetaDataX	,
+    repeat x
+    {
+int32 lengthOf ,
+char[ 007 ]repeatCount
+`" ++ [233]%N ++ runes_of_ascii "`
+, string // " ++ [27880; 37322]%N ++ runes_of_ascii "
+Header @lengthOf(
+    len ),	}
+,	@rightPad (
+' '
+    ) @tag(	3  )
+@tag(
+00 ) char[ 00 ]rootA	, f64 string_ , @calculatedFrom( ""it's""
+// " ++ [27880; 37322]%N ++ runes_of_ascii "
+//
+) char[]falsey ``	,
+repeat
+    a1 {	i64_ u128 ,
+    zchar[
+4294967296 ]
+i8i8 ,
+Logon @lengthOf( packetx
+    // trailing space 
+    ) ,} , lengthOf float
+, @calculatedFrom( ""{,}""
+    ) u@lengthOf( rootA
+) `say ""hi""`
+//
+//x
+,	zchar[
+    //	t
+    10
+    ] metadata `` ,}
+options { } //	t")).
+Eval vm_compute in ("<<<M1209>>>" ++ check (runes_of_ascii "options { rootA = false ; }MetaData /// triple
+float { u16 falsey ``
+,  char[ 1 ]
+options1 , uint32 stringy `` , f32
+leftPad  `it's`	,
+    /// triple
+    x repeatCount ,asx
+    repeatCount
+`{ , }` ,
+    }  packet
+    rootA { @tag(
+    7 ) len string_ , } packet As
+{@leftPad ( ' '
+    // " ++ [128512]%N ++ runes_of_ascii " emoji
+    ) repeat chars { f32 leftPad @lengthOf( Packet ) `a\` ,
+    int32
+    //x
+    T `tab	here`	, match string_ as len { 65535
+: rootA ,} , A { falsey @calculatedFrom(
+    ""CRC32"" ) ,
+    uint8x
+,
+zchar ,} , } , }
+")).
+Eval vm_compute in ("<<<M4194>>>" ++ check (runes_of_ascii "
+packet
+    string_{zchar[ 3 ] 	 // c
+stringy
+@lengthOf(packetx	) `u8 x,` 	 //
+    , // `tick` ""quote"" 'q'
+  f64 
+string_ ``
+	, 
+} 
+MetaData 
+leftPad{
+	char[ 1 ]
+
+    MetaDataX  `crlf
+line`
+
+    ,
+metadata	a1
+
+    `tab	here`,T
+    o
+	`line1
+line2` , 	 // " ++ [128512]%N ++ runes_of_ascii " emoji
+	  o
+	trueish,
+
+} 
+options
+{
+
+    }
+
+    MetaData
+    // @lengthOf(
+
+  T  {Foo
+Logon ,
+	Logon	lengthOf
+	,
+char[ 00 
+]
+
+pack ,
+
+    char[
+
+    7]
+// @lengthOf(
+
+// trailing space 
+	i8i8
+
+    ``
+,
+
+    }
+
+")).
+Eval vm_compute in ("<<<M4113>>>" ++ check (runes_of_ascii "
+// top
+		options // c0
+	{	// c1
+    	charz  // c2
+=  // c3
+	f64 // c4
+; 	 // c5
+    metadata	// c6
+=// c7
+  	7	// c8
+	; // c9
+}  // c10
+  options// c11
+    	{	// c12
+
+	u128 	 // c13
+    =// c14
+
+  10 	 // c15
+  options1  // c16
+	= // c17
+true// c18
+
+;// c19
+  	zchar  // c20
+
+= // c21
+	uint16	// c22
+
+	; // c23
+	lengthOf// c24
+	= 	 // c25
+	true  // c26
+
+;// c27
+	}  // c28
+options// c29
+  { 	 // c30
+  	len // c31
+    =  // c32
+  1 	 // c33
+	}	// c34
+")).
+Eval vm_compute in ("<<<M401>>>" ++ check (runes_of_ascii "// " ++ [128512]%N ++ runes_of_ascii " emoji
+packet
+    roots
+{x_y_z @lengthOf(
+    u128
+) ,
+    @calculatedFrom( ""it's"")match
+a1
+as
+    Pad
+{ ""`tick`"" : x_y_z ,1
+: leftPad 00
+:
+u8x
+7 //x
+:falsey , ""1"" :Packet ,
+//x
+// trailing space 
+""`tick`""
+    : As//x
+}	, @tag(	007 )  char[]MetaDataX ,string chars @calculatedFrom( ""`tick`"" )
+    , } root packet calculatedFrom
+    { repeat zchar[ 255 ] matchKey `doc` , char[ 4294967296 ]  options1 @lengthOf(
+stringy//	t
+) , } // a // b")).
+Eval vm_compute in ("<<<M4480>>>" ++ check (runes_of_ascii "packet roots {
+    repeat u8x `two words`,
+    repeat roots {
+        // " ++ [27880; 37322]%N ++ runes_of_ascii "
+        char[1] Z9_ `it's`,// " ++ [128512]%N ++ runes_of_ascii " emoji
+        char[42] float `" ++ [28040; 24687; 31867; 22411]%N ++ runes_of_ascii "`,
+    },
+    char[] As `a\`,
+    calculatedFrom {
+        repeat uint64 trueish,
+    },
+    repeat i64 MetaDataX,
+    repeat string uint8x `say ""hi""`,
+    _x A `
+    `,
+    @lengthOf(Packet)
+    @tag(7)
+    @leftPad()
+    Header {
+        u128,
+        repeat char[] trueish `a\`,
+    },
+}")).
+Eval vm_compute in ("<<<M218>>>" ++ check (runes_of_ascii "packet lengthOf {
+f64 lengthOf
+@lengthOf(a1
+)
+`" ++ [28040; 24687; 31867; 22411]%N ++ runes_of_ascii "`
+, uint64 Logon `" ++ [233]%N ++ runes_of_ascii "`
+,	string Pad@calculatedFrom( ""\n"" )
+/// triple
+// trailing space 
+,zchar[ 0123456789
+    ] Foo @lengthOf( charz )	`// not a comment` ,
+@rightPad ()match falsey
+    as Packet{ """"
+    :
+u ,
+65535 :
+float ,[  4294967296
+] :	trueish // trailing space 
+,	[10 ,0123456789 ]  :
+Logon , 1 : roots [  7 ,
+""\" ++ [233]%N ++ runes_of_ascii """ , 00
+    //
+    ]:
+float , } ,}
+")).
+Eval vm_compute in ("<<<M1335>>>" ++ check (runes_of_ascii "packet //	t
+metadata
+    /// triple
+    {
+@calculatedFrom( ""a\\""
+) // @lengthOf(
+@rightPad // trailing space 
+( '\x00' ) @rightPad (
+// a // b
+// " ++ [27880; 37322]%N ++ runes_of_ascii "
+'\x00' ) repeat	x	, }
+    MetaData
+T { int32 lengthOf
+// `tick` ""quote"" 'q'
+// packet A { u8 x, }
+, trueish T `` , rootA crc`a\`
+    , Pad A `{ , }`
+, }
+    MetaData
+    float { repeatCount
+string_  `" ++ [233]%N ++ runes_of_ascii "` , }
+    MetaData u128{ a1 BodyLength ,}
+")).
+Eval vm_compute in ("<<<M94>>>" ++ check (runes_of_ascii "options { o =
+    ' ' ; lengthOf= ""it's"" string_= """ ++ [28040; 24687]%N ++ runes_of_ascii """	;i8i8 // c
+=  uint32 } packet Logon{	Pad	@lengthOf(
+    stringy),@rightPad (	'\x00'
+) Header stringy `a\` , T { match	a1
+    as Logon{  42 :
+chars }	, },stringy {
+zchar[ 7 // trailing space 
+] x_y_z, }, uint8x BodyLength
+, repeat zchar ,	@tag( 7 ) repeat // packet A { u8 x, }
+u64 u128`" ++ [28040; 24687; 31867; 22411]%N ++ runes_of_ascii "` // packet A { u8 x, }
+, }")).
+Eval vm_compute in ("<<<M175>>>" ++ check (runes_of_ascii "packet f32a
+{
+    repeat calculatedFrom u128//	t
+,
+    T @calculatedFrom( ""a\\"" ) `crlf
+line` ,
+string /// triple
+charz, @leftPad (
+    //x
+    ) repeat
+pack // a // b
+T
+    ,	}MetaData
+charz { } packet	i8i8{A
+x ,match A
+as
+leftPad { ""abc""	: msg_type , ""a	b""
+    //	t
+    :
+    T }	,f64 i8i8
+    ,
+char charz`" ++ [233]%N ++ runes_of_ascii "`
+    // `tick` ""quote"" 'q'
+    ,} // " ++ [128512]%N ++ runes_of_ascii " emoji")).
+Eval vm_compute in ("<<<M3656>>>" ++ check (runes_of_ascii "options {
+    FixedStringPadFromLeft = true;
+    FixedStringPadChar = ' ';
+}
+packet Reject {
+}
+packet Fill {
+    repeat i16 Tail,
+}
+root packet Trade {
+    float64 Ref,
+    Fill,
+    u8 Note,
+    u16 count @lengthOf(Body),
+    match Note as Body {
+        [98, 101] : Fill,
+        34 : Reject,
+    },
+    u32 x @calculatedFrom(""CR\
+C32""),
+}
+")).
+Eval vm_compute in ("<<<M4281>>>" ++ check (runes_of_ascii "options {
+    // @lengthOf(
+    // " ++ [128512]%N ++ runes_of_ascii " emoji
+    x = 10;
+    x_y_z = true;
+    Logon = i32
+    T = 0
+}
+
+MetaData f32a {
+    zchar len,
+}
+
+options {
+    string_ = zchar[007];
+    x_y_z = '0';
+}
+
+MetaData msg_type {
+    lengthOf msg_type `two words`,
+    i64 crc,
+    packetx zchar `// not a comment`,
+    string falsey `tab	here`,
+}")).
+Eval vm_compute in ("<<<M2021>>>" ++ check (runes_of_ascii "MetaData
+    u { }  options {
+// c
+// @lengthOf(
+float = int8 ;rootA =false ; As =	int16 // `tick` ""quote"" 'q'
+repeatCount
+    // trailing space 
+    =
+    int16
+; u8x =
+    //	t
+    '\x00' ; } options	{
+    repeatCount
+= 0
+u128
+    //
+    = false false ; i64_
+// trailing space 
+// `tick` ""quote"" 'q'
+= '0' ; //	t
+}
+")).
+Eval vm_compute in ("<<<M1871>>>" ++ check (runes_of_ascii "MetaData
+    u { } }  options {
+// c
+// @lengthOf(
+float = int8 ;rootA =false ; As =	int16 // `tick` ""quote"" 'q'
+repeatCount
+    // trailing space 
+    =
+    int16
+; u8x =
+    //	t
+    '\x00' ; } options	{
+    repeatCount
+= 0
+u128
+    //
+    = false ; i64_
+// trailing space 
+// `tick` ""quote"" 'q'
+= '0' ; //	t
+}
+")).
+Eval vm_compute in ("<<<M3867>>>" ++ check (runes_of_ascii "// `tick` ""quote"" 'q'
+MetaData pack {
+    string MetaDataX,//
+    zchar[65535] i8i8,
+    pack rootA `say ""hi""`,
+    string_ Header `crlf
+        line`,
+    int64 string_,
+    /// triple
+    //	t
+    char[] packetx,
+}
+
+options {
+    trueish = ' ';
+    i64_ = i16
+    pack = u16;
+    len = false
+}
+
+MetaData i64_ {
+}")).
+Eval vm_compute in ("<<<M1933>>>" ++ check (runes_of_ascii "MetaData
+    u { }  options {
+// c
+// @lengthOf(
+float = int8 ;rootA =false ; As :	int16 // `tick` ""quote"" 'q'
+repeatCount
+    // trailing space 
+    =
+    int16
+; u8x =
+    //	t
+    '\x00' ; } options	{
+    repeatCount
+= 0
+u128
+    //
+    = false ; i64_
+// trailing space 
+// `tick` ""quote"" 'q'
+= '0' ; //	t
+}
+")).
+Eval vm_compute in ("<<<M1860>>>" ++ check (runes_of_ascii "MetaData
+     { }  options {
+// c
+// @lengthOf(
+float = int8 ;rootA =false ; As =	int16 // `tick` ""quote"" 'q'
+repeatCount
+    // trailing space 
+    =
+    int16
+; u8x =
+    //	t
+    '\x00' ; } options	{
+    repeatCount
+= 0
+u128
+    //
+    = false ; i64_
+// trailing space 
+// `tick` ""quote"" 'q'
+= '0' ; //	t
+}
+")).
+Eval vm_compute in ("<<<M1960>>>" ++ check (runes_of_ascii "MetaData
+    u { }  options {
+// c
+// @lengthOf(
+float = int8 ;rootA =false ; As =	int16 // `tick` ""quote"" 'q'
+repeatCount
+    // trailing space 
+    =
+    int16
+;  =
+    //	t
+    '\x00' ; } options	{
+    repeatCount
+= 0
+u128
+    //
+    = false ; i64_
+// trailing space 
+// `tick` ""quote"" 'q'
+= '0' ; //	t
+}
+")).
+Eval vm_compute in ("<<<M3978>>>" ++ check (runes_of_ascii "packet A {
+    u8 a,
+}
+
+packet B {
+    u16 b,
+}
+
+packet C {
+    u32 c,
+}
+
+root packet M {
+    u16 Kc,
+    u16 Kb,
+    u16 Ka,
+    match Kc as X {
+        9 : A,
+        10 : B,
+    },
+    match Kb as Y {
+        2 : C,
+        1 : A,
+    },
+    match Ka as Z {
+        1 : B,
+    },
+    A,
+    B,
+    C,
+}")).
+Eval vm_compute in ("<<<M1283>>>" ++ check (runes_of_ascii "MetaData  T {
+} root packet MetaDataX {
+// packet A { u8 x, }
+// `tick` ""quote"" 'q'
+@lengthOf( trueish
+)repeat
+//
+//	t
+BodyLength ``  , }MetaData
+    A // `tick` ""quote"" 'q'
+{ float32 trueish , } packet
+o
+    //x
+    {
+    @lengthOf( Foo)  i8i8 stringy
+    ,}MetaData trueish	{
+    string o , }")).
+Eval vm_compute in ("<<<M782>>>" ++ check (runes_of_ascii "root packet
+    i8i8
+{ i8 crc,
+    // @lengthOf(
+    @rightPad () uint64 u128`two words`
+//
+//	t
+,//	t
+uint64
+_x	`{ , }` ,
+// c
+//x
+} options {
+As =""abc""leftPad
+// " ++ [128512]%N ++ runes_of_ascii " emoji
+/// triple
+= ""CRC32""
+charz =	char[ 65535 ] //	t
+;x_y_z // trailing space 
+= true ; }// @lengthOf(
+options { }
+")).
+Eval vm_compute in ("<<<M3861>>>" ++ check (runes_of_ascii "root packet pack {
+    match Pad as f32a {
+        [""""] : leftPad,
+        [""" ++ [233]%N ++ runes_of_ascii "t" ++ [233]%N ++ runes_of_ascii """, 007] : f32a,
+        65535 : body,
+        // @lengthOf(
+        10 : u128,
+        42 : pack,
     },
 }
 
 options {
+    // " ++ [27880; 37322]%N ++ runes_of_ascii "
+    o = f64;
+    x_y_z = u32
+    len = 42;
+    falsey = true;
 }")).
-Eval vm_compute in ("<<<M1364>>>" ++ check (runes_of_ascii "  MetaData
-matchKey { //	t
-}packet
-    u8x{ len
-{	_x,  } , } packet Logon{ u64 falsey @calculatedFrom( ""x y"" ) , @calculatedFrom(
-    """ ++ [233]%N ++ runes_of_ascii "t" ++ [233]%N ++ runes_of_ascii """ ) @rightPad// trailing space 
-(
-' '
-    // `tick` ""quote"" 'q'
-    )
-repeat float32 Foo ,
-    uint8 i64_
-    @lengthOf(u ) , zchar[ // " ++ [128512]%N ++ runes_of_ascii " emoji
-3  ]Header @calculatedFrom(
-    ""1"")
-// `tick` ""quote"" 'q'
-//x
-, repeat chars u128 `u8 x,`
-    , }")).
-Eval vm_compute in ("<<<M652>>>" ++ check (runes_of_ascii "packet u128{ }
-    // " ++ [128512]%N ++ runes_of_ascii " emoji
-    root
-packet
-rootA{ @tag( // " ++ [27880; 37322]%N ++ runes_of_ascii "
-007 )
-match uint8x as
-    crc {	""a\""b"" :
-    charz ,},
-    // packet A { u8 x, }
-    uint64 repeatCount ,@tag(007//x
-)
-    uint8 f32a
-, @rightPad (
-' ' ) @leftPad
-( '\x00')  @lengthOf( stringy ) T@lengthOf( charz
-    ), metadata matchKey , }
-    packet msg_type {
-    stringy zchar `" ++ [28040; 24687; 31867; 22411]%N ++ runes_of_ascii "` , }
-")).
-Eval vm_compute in ("<<<M1344>>>" ++ check (runes_of_ascii "packet x { @tag(7 // " ++ [27880; 37322]%N ++ runes_of_ascii "
-) @calculatedFrom(""{,}"")
-    int16
-    Packet @calculatedFrom(
-""it's""
-    ) `a\`
-    ,charz f32a// @lengthOf(
-, match metadata
-    as BodyLength{ [ 65535 , 3, 1 ,00,// `tick` ""quote"" 'q'
-""a	b""	]: // " ++ [27880; 37322]%N ++ runes_of_ascii "
-stringy , /// triple
-[ ""`tick`""
-] :
-//
+Eval vm_compute in ("<<<M1568>>>" ++ check (runes_of_ascii "packet
+//	t
+// trailing space 
+_x {
 // packet A { u8 x, }
-float },
-@tag(  007 ) @tag(7)leftPad @lengthOf(pack) , }
-")).
-Eval vm_compute in ("<<<M4318>>>" ++ check (runes_of_ascii "MetaData float {
-    u8 Packet,
-    string i64_ `" ++ [28040; 24687; 31867; 22411]%N ++ runes_of_ascii "`,
-    charz pack,
-    char rootA,
-    char[0123456789] msg_type,
-    uint8 calculatedFrom,
+// c
+char[
+3
+    ] u8x @lengthOf(
+u8x ) , @calculatedFrom(""" ++ [128512]%N ++ runes_of_ascii """ // @lengthOf(
+)
+i16	Foo
+@lengthOf( @lengthOf(	string_
+    )`doc`	, repeat	i64 metadata , @lengthOf( string_
+) i8 // c
+u  `line1
+line2`	,
 }
-
-packet Pad {
-}
-
-root packet len {
-    // c
-    matchKey @calculatedFrom(""a\""b"") `u8 x,`,//x
-    @leftPad()
-    match roots as u128 {
-        [4294967296, 007] : body,
-    },
-    charz,
-}")).
-Eval vm_compute in ("<<<M65>>>" ++ check (runes_of_ascii "  options	{ string_
-=true; } options
-{ T
-= false}
-packet
-u8x { @lengthOf( int
-    //
-    )
-zchar[ 255 ] BodyLength , } // trailing space 
-root
-packet
-    f32a  { }packet roots
-{ Foo
-    , repeat char[ 007 ] Pad
-,repeat  int8
-packetx
-    ,
-    match Z9_ as T	{
-00 :A , ""a\""b"" :
-    falsey  , //
-""CRC32""
-:a1
-,
-    }	, }
 ")).
-Eval vm_compute in ("<<<M2028>>>" ++ check (runes_of_ascii "MetaData
+Eval vm_compute in ("<<<M2039>>>" ++ check (runes_of_ascii "MetaData
     u { }  options {
 // c
 // @lengthOf(
@@ -1748,210 +1968,8 @@ repeatCount
 = 0
 u128
     //
-    = false packet i64_
-// trailing space 
-// `tick` ""quote"" 'q'
-= '0' ; //	t
-}
-")).
-Eval vm_compute in ("<<<M1966>>>" ++ check (runes_of_ascii "MetaData
-    u { }  options {
-// c
-// @lengthOf(
-float = int8 ;rootA =false ; As =	int16 // `tick` ""quote"" 'q'
-repeatCount
-    // trailing space 
-    =
-    int16
-; u8x = =
-    //	t
-    '\x00' ; } options	{
-    repeatCount
-= 0
-u128
-    //
-    = false ; i64_
-// trailing space 
-// `tick` ""quote"" 'q'
-= '0' ; //	t
-}
-")).
-Eval vm_compute in ("<<<M2070>>>" ++ check (runes_of_ascii "MetaData
-    u { }  options {
-// c
-// @lengthOf(
-float = int8 ;rootA =false ; As =	int16 // `tick` ""quote"" 'q'
-repeatCount
-    // trailing space 
-    =
-    int16
-; u8x =
-    //	<t
-    '\x00' ; } options	{
-    repeatCount
-= 0
-u128
-    //
-    = false ; i64_
-// trailing space 
-// `tick` ""quote"" 'q'
-= '0' ; //	t
-}
-")).
-Eval vm_compute in ("<<<M1978>>>" ++ check (runes_of_ascii "MetaData
-    u { }  options {
-// c
-// @lengthOf(
-float = int8 ;rootA =false ; As =	int16 // `tick` ""quote"" 'q'
-repeatCount
-    // trailing space 
-    =
-    int16
-; u8x =
-    //	t
-    '\x00' , } options	{
-    repeatCount
-= 0
-u128
-    //
-    = false ; i64_
-// trailing space 
-// `tick` ""quote"" 'q'
-= '0' ; //	t
-}
-")).
-Eval vm_compute in ("<<<M1980>>>" ++ check (runes_of_ascii "MetaData
-    u { }  options {
-// c
-// @lengthOf(
-float = int8 ;rootA =false ; As =	int16 // `tick` ""quote"" 'q'
-repeatCount
-    // trailing space 
-    =
-    int16
-; u8x =
-    //	t
-    '\x00' ;  options	{
-    repeatCount
-= 0
-u128
-    //
-    = false ; i64_
-// trailing space 
-// `tick` ""quote"" 'q'
-= '0' ; //	t
-}
-")).
-Eval vm_compute in ("<<<M2020>>>" ++ check (runes_of_ascii "MetaData
-    u { }  options {
-// c
-// @lengthOf(
-float = int8 ;rootA =false ; As =	int16 // `tick` ""quote"" 'q'
-repeatCount
-    // trailing space 
-    =
-    int16
-; u8x =
-    //	t
-    '\x00' ; } options	{
-    repeatCount
-= 0
-u128
-    //
-    =  ; i64_
-// trailing space 
-// `tick` ""quote"" 'q'
-= '0' ; //	t
-}
-")).
-Eval vm_compute in ("<<<M40>>>" ++ check (runes_of_ascii "packet// " ++ [128512]%N ++ runes_of_ascii " emoji
-charz
-    {
-repeat options1 {char x_y_z
-/// triple
-//x
-, T	{ string_ @calculatedFrom(""1"") , } ,
-f64
-    crc ,
-u64 A
-// trailing space 
-/// triple
-@calculatedFrom(""CRC32""	), } ,} MetaData MetaDataX //	t
-{
-}
-root packet
-u128{ string_  {
-    repeat pack {
-As matchKey , } ,} ,
-}
-")).
-Eval vm_compute in ("<<<M305>>>" ++ check (runes_of_ascii "options
-{
-}
-root
-    // a // b
-    packet x //	t
-{ match
-    len as x{ [	7 , 42 ,	007 , //x
-255 // trailing space 
-, ""// no comment""
-// `tick` ""quote"" 'q'
-// " ++ [128512]%N ++ runes_of_ascii " emoji
-]:x_y_z, ""`tick`"" : u128
-, 3 : string_
-    /// triple
-    ,
-[	""CRC32""  ] : trueish ,4294967296 :Foo ,
-[ 0 ]
-: lengthOf } , }")).
-Eval vm_compute in ("<<<M3712>>>" ++ check (runes_of_ascii "packet Foo {
-    @calculatedFrom(""" ++ [233]%N ++ runes_of_ascii "t" ++ [233]%N ++ runes_of_ascii """)
-    repeatCount stringy,
-    u32 u8x @calculatedFrom(""{,}"") `
-        `,
-    repeat float64 Foo,
-    char[] T `{ , }`,
-}
-
-packet f32a {
-    @tag(007)
-    uint64 falsey,
-}
-
-MetaData Foo {
-    u16 T,
-    crc tag,
-    A falsey `tab	here`,
-}")).
-Eval vm_compute in ("<<<M72>>>" ++ check (runes_of_ascii "MetaData len //	t
-{ f64 calculatedFrom , x_y_z	x
-,} packet repeatCount { @lengthOf(pack ) match
-x_y_z as o // " ++ [27880; 37322]%N ++ runes_of_ascii "
-{ 7:
-Header
-// `tick` ""quote"" 'q'
-// a // b
-} , } options { lengthOf  = true; }
-packet  leftPad
-    {
-    MetaDataX @lengthOf( T ) `two words` ,
-    }")).
-Eval vm_compute in ("<<<M1114>>>" ++ check (runes_of_ascii "
-packet calculatedFrom
-{
-@lengthOf( rootA
-    )
-    @tag( 0 )  repeat  lengthOf
-    // trailing space 
-    Pad `doc`,
-} // packet A { u8 x, }
-options
-    {
-lengthOf	= false x_y_z= true  ;_x = u8; zchar=
-    char[ 10 ] MetaDataX
-    =
-    true } packet	T { }")).
-Eval vm_compute in ("<<<M1667>>>" ++ check (runes_of_ascii "packet
+    = false ; i64_")).
+Eval vm_compute in ("<<<M1588>>>" ++ check (runes_of_ascii "packet
 //	t
 // trailing space 
 _x {
@@ -1964,16 +1982,16 @@ u8x ) , @calculatedFrom(""" ++ [128512]%N ++ runes_of_ascii """ // @lengthOf(
 )
 i16	Foo
 @lengthOf(	string_
-    )`doc`	, repeat	'1'i64 metadata , @lengthOf( string_
+    )`doc`	, , repeat	i64 metadata , @lengthOf( string_
 ) i8 // c
 u  `line1
 line2`	,
 }
 ")).
-Eval vm_compute in ("<<<M1664>>>" ++ check (runes_of_ascii "packet
+Eval vm_compute in ("<<<M1490>>>" ++ check (runes_of_ascii "_x
 //	t
 // trailing space 
-_x {
+packet {
 // packet A { u8 x, }
 // c
 char[
@@ -1983,32 +2001,13 @@ u8x ) , @calculatedFrom(""" ++ [128512]%N ++ runes_of_ascii """ // @lengthOf(
 )
 i16	Foo
 @lengthOf(	string_
- #   )`doc`	, repeat	i64 metadata , @lengthOf( string_
+    )`doc`	, repeat	i64 metadata , @lengthOf( string_
 ) i8 // c
 u  `line1
 line2`	,
 }
 ")).
-Eval vm_compute in ("<<<M1585>>>" ++ check (runes_of_ascii "packet
-//	t
-// trailing space 
-_x {
-// packet A { u8 x, }
-// c
-char[
-3
-    ] u8x @lengthOf(
-u8x ) , @calculatedFrom(""" ++ [128512]%N ++ runes_of_ascii """ // @lengthOf(
-)
-i16	Foo
-@lengthOf(	string_
-    )int16	, repeat	i64 metadata , @lengthOf( string_
-) i8 // c
-u  `line1
-line2`	,
-}
-")).
-Eval vm_compute in ("<<<M1632>>>" ++ check (runes_of_ascii "packet
+Eval vm_compute in ("<<<M1634>>>" ++ check (runes_of_ascii "packet
 //	t
 // trailing space 
 _x {
@@ -2023,92 +2022,114 @@ i16	Foo
 @lengthOf(	string_
     )`doc`	, repeat	i64 metadata , @lengthOf( string_
 ) i8 // c
-  `line1
+`line1
+line2`  u	,
+}
+")).
+Eval vm_compute in ("<<<M1517>>>" ++ check (runes_of_ascii "packet
+//	t
+// trailing space 
+_x {
+// packet A { u8 x, }
+// c
+char[
+3
+    ]  @lengthOf(
+u8x ) , @calculatedFrom(""" ++ [128512]%N ++ runes_of_ascii """ // @lengthOf(
+)
+i16	Foo
+@lengthOf(	string_
+    )`doc`	, repeat	i64 metadata , @lengthOf( string_
+) i8 // c
+u  `line1
 line2`	,
 }
 ")).
-Eval vm_compute in ("<<<M848>>>" ++ check (runes_of_ascii "packet// `tick` ""quote"" 'q'
-zchar { // c
-} MetaData Header {Z9_ // a // b
-pack , } MetaData asx { //	t
-u Header
+Eval vm_compute in ("<<<M1213>>>" ++ check (runes_of_ascii "options { string_ = char[] ;
+}
+packet Z9_
+{
+// " ++ [27880; 37322]%N ++ runes_of_ascii "
+// a // b
+@tag( 1 ) matchKey matchKey
     ,
-    zchar[ 3
-    ]o
-,
-    As repeatCount
-`" ++ [28040; 24687; 31867; 22411]%N ++ runes_of_ascii "`	,
-//	t
-//	t
-rootA
-tag //x
-`u8 x,`
-    , float64 options1 , char[] uint8x , }
+}	root packet
+    // `tick` ""quote"" 'q'
+    Z9_ {	@leftPad
+    ( '\x00' ) @rightPad // " ++ [27880; 37322]%N ++ runes_of_ascii "
+(
+'\x00'// packet A { u8 x, }
+)
+float64 chars `it's` , }")).
+Eval vm_compute in ("<<<M1230>>>" ++ check (runes_of_ascii "root packet roots { } // `tick` ""quote"" 'q'
+MetaData As
+{ string u
+`{ , }` ,	zchar[ 3 ]
+x_y_z, i32 roots ,
+u16 rootA
+    `line1
+line2` ,
+// `tick` ""quote"" 'q'
+// a // b
+i32// @lengthOf(
+matchKey
+    `doc`, u _x //	t
+`{ , }` , }
 ")).
-Eval vm_compute in ("<<<M923>>>" ++ check (runes_of_ascii "packet options1 { @leftPad
-    (
-    '0' )
-repeat char[1 ] // " ++ [27880; 37322]%N ++ runes_of_ascii "
-roots  `
-` , i32 A`
-`, repeat
-    char[ 3] stringy // `tick` ""quote"" 'q'
-, repeat	f64
-    Z9_
-`tab	here`, }
-    packet T	{
-    @tag( 00	)repeat float
-`say ""hi""`,} /// triple")).
-Eval vm_compute in ("<<<M468>>>" ++ check (runes_of_ascii "options { i64_	= ""\n""; BodyLength
-    = float64 i64_ =
-    false ; }MetaData  Packet  {	uint16 A `u8 x,` ,
-    zchar[ 007 ]i64_ , char[ 007	]
-chars ,
-    float64
-x_y_z,MetaDataX stringy`// not a comment`, }
-MetaData
-msg_type { }")).
-Eval vm_compute in ("<<<M527>>>" ++ check (runes_of_ascii "root packet repeatCount{ T {
-char[ 255 ] T
+Eval vm_compute in ("<<<M2014>>>" ++ check (runes_of_ascii "MetaData
+    u { }  options {
 // c
+// @lengthOf(
+float = int8 ;rootA =false ; As =	int16 // `tick` ""quote"" 'q'
+repeatCount
+    // trailing space 
+    =
+    int16
+; u8x =
+    //	t
+    '\x00' ; } options	{
+    repeatCount
+= 0")).
+Eval vm_compute in ("<<<M1626>>>" ++ check (runes_of_ascii "packet
+//	t
+// trailing space 
+_x {
 // packet A { u8 x, }
-`a\`,zchar[ 00// trailing space 
-]Foo	@lengthOf( repeatCount
-    )// " ++ [128512]%N ++ runes_of_ascii " emoji
-, Foo x_y_z
-, packetx @calculatedFrom( ""packet""
-    )// " ++ [27880; 37322]%N ++ runes_of_ascii "
-,
-}
-    , }
+// c
+char[
+3
+    ] u8x @lengthOf(
+u8x ) , @calculatedFrom(""" ++ [128512]%N ++ runes_of_ascii """ // @lengthOf(
+)
+i16	Foo
+@lengthOf(	string_
+    )`doc`	, repeat	i64 metadata , @lengthOf( string_")).
+Eval vm_compute in ("<<<M115>>>" ++ check (runes_of_ascii "
+MetaData stringy
+{
+    i16
+    f32a , string  crc `crlf
+line`
+, f32 o `doc` , float64
+calculatedFrom , }	packet o
+{ @leftPad // `tick` ""quote"" 'q'
+( )string_
+    @lengthOf(packetx // `tick` ""quote"" 'q'
+), }
 ")).
-Eval vm_compute in ("<<<M488>>>" ++ check (runes_of_ascii "MetaData x	{ uint32 u8x `" ++ [28040; 24687; 31867; 22411]%N ++ runes_of_ascii "`
-    ,}
-// packet A { u8 x, }
-// " ++ [128512]%N ++ runes_of_ascii " emoji
-MetaData o {
-    }
-    // packet A { u8 x, }
-    packet
-pack	{ // packet A { u8 x, }
-repeat
-    zchar[
-4294967296 // a // b
-]
-roots
-    , }")).
-Eval vm_compute in ("<<<M1722>>>" ++ check (runes_of_ascii "options { trueish = ""`tick`"" ; string_= """ ++ [233]%N ++ runes_of_ascii "t" ++ [233]%N ++ runes_of_ascii """
-    // c
-    } root root
-    packet body { stringy @calculatedFrom(
-""a	b"" ) `line1
-line2` , }
-packet Logon {
-    @leftPad(
-    ' ' ) //	t
-u16 string_ `u8 x,` ,
-}
-")).
+Eval vm_compute in ("<<<M818>>>" ++ check (runes_of_ascii "packet calculatedFrom{ body, } packet Packet {repeat
+    _x // a // b
+asx ,@tag(
+3 )
+    @calculatedFrom(
+""" ++ [128512]%N ++ runes_of_ascii """
+)
+    char[3 ]
+    body, f64
+    MetaDataX `u8 x,` ,
+    //x
+    @tag(0 )repeat
+    roots i8i8 ,	}")).
 Eval vm_compute in ("<<<M1797>>>" ++ check (runes_of_ascii "options { trueish = ""`tick`"" ; string_= """ ++ [233]%N ++ runes_of_ascii "t" ++ [233]%N ++ runes_of_ascii """
     // c
     } root
@@ -2145,21 +2166,7 @@ packet Logon {
 u16 string_ , `u8 x,`
 }
 ")).
-Eval vm_compute in ("<<<M1012>>>" ++ check (runes_of_ascii "options {
-trueish =
-    i32 A= ""\" ++ [233]%N ++ runes_of_ascii """// `tick` ""quote"" 'q'
-int =// `tick` ""quote"" 'q'
-char[ 007  ]//x
-; }
-    MetaData MetaDataX { falsey float ,Logon matchKey
-``
-    ,
-string stringy ,	u64
-    T
-,
-}
-")).
-Eval vm_compute in ("<<<M1816>>>" ++ check (runes_of_ascii "options { trueish = ""`tick`"" ; string_= """ ++ [233]%N ++ runes_of_ascii "t" ++ [233]%N ++ runes_of_ascii """
+Eval vm_compute in ("<<<M1714>>>" ++ check (runes_of_ascii "options { trueish = ""`tick`"" ; string_= (
     // c
     } root
     packet body { stringy @calculatedFrom(
@@ -2168,20 +2175,32 @@ line2` , }
 packet Logon {
     @leftPad(
     ' ' ) //	t
-u16  `u8 x,` ,
+u16 string_ `u8 x,` ,
 }
 ")).
-Eval vm_compute in ("<<<M1374>>>" ++ check (runes_of_ascii "root
-// a // b
-// c
-packet	i8i8 { }packet roots { // trailing space 
-f64 uint8x ,@lengthOf(
-    lengthOf // c
-) roots @calculatedFrom( // a // b
-""" ++ [128512]%N ++ runes_of_ascii """ )  `{ , }` //x
-, i32 falsey,
-    //
-    }
+Eval vm_compute in ("<<<M1821>>>" ++ check (runes_of_ascii "options { trueish = ""`tick`"" ; string_= """ ++ [233]%N ++ runes_of_ascii "t" ++ [233]%N ++ runes_of_ascii """
+    // c
+    } root
+    packet body { stringy @calculatedFrom(
+""a	b"" ) `line1
+line2` , }
+packet Logon {
+    @leftPad(
+    ' ' ) //	t
+u16 string_  ,
+}
+")).
+Eval vm_compute in ("<<<M886>>>" ++ check (runes_of_ascii "packet tag	{ BodyLength
+    // @lengthOf(
+    @lengthOf( options1
+    )
+,} options
+{trueish
+    = ""a\\""	matchKey
+= 0123456789 // trailing space 
+;
+    BodyLength = '\x00' charz = """ ++ [233]%N ++ runes_of_ascii "t" ++ [233]%N ++ runes_of_ascii """
+; }
 ")).
 Eval vm_compute in ("<<<M1601>>>" ++ check (runes_of_ascii "packet
 //	t
@@ -2197,452 +2216,478 @@ u8x ) , @calculatedFrom(""" ++ [128512]%N ++ runes_of_ascii """ // @lengthOf(
 i16	Foo
 @lengthOf(	string_
     )`doc`	, repeat")).
-Eval vm_compute in ("<<<M4155>>>" ++ check (runes_of_ascii "
-// top
-packet// c0a
-	// c0b
+Eval vm_compute in ("<<<M1596>>>" ++ check (runes_of_ascii "packet
+//	t
+// trailing space 
+_x {
+// packet A { u8 x, }
+// c
+char[
+3
+    ] u8x @lengthOf(
+u8x ) , @calculatedFrom(""" ++ [128512]%N ++ runes_of_ascii """ // @lengthOf(
+)
+i16	Foo
+@lengthOf(	string_
+    )`doc`	,")).
+Eval vm_compute in ("<<<M4371>>>" ++ check (runes_of_ascii "packet zchar {
+    @calculatedFrom(""// no comment"")
+    i32 x_y_z,
+}
 
-x 
-    // c1
-	{@rightPad
-	    // c3
-  (  // c4a
-  // c4b
-  )
-repeat
-	roots
-
-    // c7
-  Logon// c8
-		`doc`
-    // c9
-  ,}// c11a
-// c11b
-")).
-Eval vm_compute in ("<<<M1238>>>" ++ check (runes_of_ascii "packet	body {
+options {
+    int = i8;
+    MetaDataX = char[];
+    Logon = false;
+    roots = 0//
+    Pad = false;
+}")).
+Eval vm_compute in ("<<<M392>>>" ++ check (runes_of_ascii "
+root
+packet
+calculatedFrom
+/// triple
+// packet A { u8 x, }
+{ i64_
     // @lengthOf(
-    body
-    trueish , repeat MetaDataX
-string_,  char[] asx `say ""hi""`
-, char
-// a // b
-// " ++ [128512]%N ++ runes_of_ascii " emoji
-int@calculatedFrom(""packet""
-    )
-,}
-")).
-Eval vm_compute in ("<<<M250>>>" ++ check (runes_of_ascii "packet tag
-{@rightPad( )	zchar[ 00
-    //x
-    ] //x
-MetaDataX `" ++ [233]%N ++ runes_of_ascii "` ,
-    float32 Header `say ""hi""`
-// " ++ [128512]%N ++ runes_of_ascii " emoji
-// `tick` ""quote"" 'q'
-, } MetaData
-T{int lengthOf  ,}")).
-Eval vm_compute in ("<<<M2204>>>" ++ check (runes_of_ascii "options{
-_x
-= true
-} options
-{ o	= /// triple
-false
-    ; chars
-= ""\n"" } root packet	Pad
-/// triple@leftpad
-// packet A { u8 x, }
-{	chars
-    // a // b
-    ,}")).
-Eval vm_compute in ("<<<M2117>>>" ++ check (runes_of_ascii "options{
-_x
-= true
-} options
-{ string	= /// triple
-false
-    ; chars
-= ""\n"" } root packet	Pad
-/// triple
-// packet A { u8 x, }
-{	chars
-    // a // b
-    ,}")).
-Eval vm_compute in ("<<<M2423>>>" ++ check (runes_of_ascii "// c
-packet x { @lengthOf( metadata ) repeat lengthOf
-,a1{
-trueish	,// c
-repeat//	t
-MetaDataX , u16 , zchar[
-    42	] rootA // `tick` ""quote"" 'q'
-,
-    }
-")).
-Eval vm_compute in ("<<<M2203>>>" ++ check (runes_of_ascii "options{
-_x
-= true
-} options
-{ o	= /// triple
-false
-    ; $ chars
-= ""\n"" } root packet	Pad
-/// triple
-// packet A { u8 x, }
-{	chars
-    // a // b
-    ,}")).
-Eval vm_compute in ("<<<M2196>>>" ++ check (runes_of_ascii "options{
-_x
-= true
-} options
-{ o	= /// triple
-false
-" ++ [0]%N ++ runes_of_ascii "    ; chars
-= ""\n"" } root packet	Pad
-/// triple
-// packet A { u8 x, }
-{	chars
-    // a // b
-    ,}")).
-Eval vm_compute in ("<<<M2141>>>" ++ check (runes_of_ascii "options{
-_x
-= true
-} options
-{ o	= /// triple
-false
-    ; chars
-""\n"" = } root packet	Pad
-/// triple
-// packet A { u8 x, }
-{	chars
-    // a // b
-    ,}")).
-Eval vm_compute in ("<<<M2315>>>" ++ check (runes_of_ascii "// c
-packet x { @lengthOf( metadata ) repeat lengthOf
-,a1{
-trueish	,// c
-repeat//	t
-`" ++ [28040; 24687; 31867; 22411]%N ++ runes_of_ascii "` , } , zchar[
-    42	] rootA // `tick` ""quote"" 'q'
-,
-    }
-")).
-Eval vm_compute in ("<<<M2349>>>" ++ check (runes_of_ascii "// c
-packet x { @lengthOf( metadata ) repeat lengthOf
-,a1{
-trueish	,// c
-repeat//	t
-MetaDataX , } , 
-    42	] rootA // `tick` ""quote"" 'q'
-,
-    }
-")).
-Eval vm_compute in ("<<<M772>>>" ++ check (runes_of_ascii "
-MetaData string_ //	t
-{ stringy metadata
-    , // packet A { u8 x, }
-lengthOf int
-``,
-    f32a u8x	,
-u32//
-tag ,	falsey repeatCount ,
-    }
-")).
-Eval vm_compute in ("<<<M4043>>>" ++ check (runes_of_ascii "packet trueish {
-    match falsey as leftPad {
-        // " ++ [128512]%N ++ runes_of_ascii " emoji
-        ""// no comment"" : leftPad,
-    },
-    repeatCount string_ `{ , }`,
-}")).
-Eval vm_compute in ("<<<M796>>>" ++ check (runes_of_ascii "//
-MetaData  u{uint64	string_
-`doc` ,A metadata`u8 x,`
-, string Logon `u8 x,` , float64 float ,
-    char[] T
+    Packet `a\` ,
+zchar[ 42] Foo@lengthOf(
+tag) /// triple
 `crlf
-line` , u8 Logon, }
+line`
+, }
 ")).
-Eval vm_compute in ("<<<M4083>>>" ++ check (runes_of_ascii "packet A {
+Eval vm_compute in ("<<<M4240>>>" ++ check (runes_of_ascii "// top
+MetaData float {
+    // c2
+    float64 charz `
+        `,// c6
+}// c7
+
+root packet chars {
+    // c11
+    @rightPad('0')
+    // c15
+    Foo,// c17
+}// c18")).
+Eval vm_compute in ("<<<M1315>>>" ++ check (runes_of_ascii "/// triple
+MetaData T {
+    string_ falsey `u8 x,`, // packet A { u8 x, }
+matchKey chars `u8 x,`, calculatedFrom
+f32a `doc` ,
+/// triple
+// trailing space 
+}")).
+Eval vm_compute in ("<<<M2399>>>" ++ check (runes_of_ascii "// c
+packet x { @lengthOf( metadata ) repeat lengthOf
+,a1{ {
+trueish	,// c
+repeat//	t
+MetaDataX , } , zchar[
+    42	] rootA // `tick` ""quote"" 'q'
+,
+    }
+")).
+Eval vm_compute in ("<<<M2140>>>" ++ check (runes_of_ascii "options{
+_x
+= true
+} options
+{ o	= /// triple
+false
+    ; chars
+= = ""\n"" } root packet	Pad
+/// triple
+// packet A { u8 x, }
+{	chars
+    // a // b
+    ,}")).
+Eval vm_compute in ("<<<M2191>>>" ++ check (runes_of_ascii "options{
+_x
+= true
+} options
+/{ o	= /// triple
+false
+    ; chars
+= ""\n"" } root packet	Pad
+/// triple
+// packet A { u8 x, }
+{	chars
+    // a // b
+    ,}")).
+Eval vm_compute in ("<<<M2116>>>" ++ check (runes_of_ascii "options{
+_x
+= true
+} options
+{ =	o /// triple
+false
+    ; chars
+= ""\n"" } root packet	Pad
+/// triple
+// packet A { u8 x, }
+{	chars
+    // a // b
+    ,}")).
+Eval vm_compute in ("<<<M2114>>>" ++ check (runes_of_ascii "options{
+_x
+= true
+} options
+{ 	= /// triple
+false
+    ; chars
+= ""\n"" } root packet	Pad
+/// triple
+// packet A { u8 x, }
+{	chars
+    // a // b
+    ,}")).
+Eval vm_compute in ("<<<M3675>>>" ++ check (runes_of_ascii "packet A {
     match k as n {
         [
-            1, 007, 5, 7, ""bb"",
-            ""d"", ""f""
+            ""a"", ""bb"", ""c c"", ""d"", ""e"",
+            ""f"", ""g"", ""h"", ""i""
         ] : B,
         2 : C,
     },
 }")).
-Eval vm_compute in ("<<<M4463>>>" ++ check (runes_of_ascii "packet A {
-    match k as n {
-        [
-            1, 22, 007, 4, 5,
-            66, 7
-        ] : B,
-        2 : C,
-    },
-}")).
-Eval vm_compute in ("<<<M4006>>>" ++ check (runes_of_ascii "// " ++ [27880; 37322]%N ++ runes_of_ascii "
-MetaData int {
-    char[4294967296] packetx `line1
-    line2`,
-    rootA matchKey `two words`,
-    matchKey Packet,
-}")).
-Eval vm_compute in ("<<<M3319>>>" ++ check (runes_of_ascii "root packet matchKey {
-// c
-zchar[ 3 ] pack @calculatedFrom( ""a	b"" ) `doc` , } options { } MetaData A { int8 msg_type , }")).
-Eval vm_compute in ("<<<M3351>>>" ++ check (runes_of_ascii "root packet matchKey { zchar[ 3 ] pack @calculatedFrom( ""a	b"" ) `doc` , } options { } MetaData A {
-// c
-int8 msg_type , }")).
-Eval vm_compute in ("<<<M1472>>>" ++ check (runes_of_ascii "
-packet
-    falsey { Header@calculatedFrom(""packet""  ) , char[
-    0123456789 ] packetx
-    , } // `tick` ""quote""" ++ [0]%N ++ runes_of_ascii " 'q'")).
-Eval vm_compute in ("<<<M1459>>>" ++ check (runes_of_ascii "
-packet
-    falsey { Header@calculatedFrom(""packet""  ) , char[
-    0123456789 ] packetx
-    } , // `tick` ""quote"" 'q'")).
-Eval vm_compute in ("<<<M2368>>>" ++ check (runes_of_ascii "// c
+Eval vm_compute in ("<<<M2384>>>" ++ check (runes_of_ascii "// c
 packet x { @lengthOf( metadata ) repeat lengthOf
 ,a1{
 trueish	,// c
 repeat//	t
 MetaDataX , } , zchar[
-    42")).
-Eval vm_compute in ("<<<M1412>>>" ++ check (runes_of_ascii "
+    42	] rootA // `tick` ""quote"" 'q'
+,")).
+Eval vm_compute in ("<<<M4286>>>" ++ check (runes_of_ascii "
+packet A
+    {	match	k	as n {  [ 
+""a""
+	,
+
+    ""bb"" 
+, ""c c"" 
+,""d""	,
+""e""	,""f"", 
+""g""
+
+    , 
+""h"" , ""i"",	""j""
+    ] : 
+B  2  :
+
+C
+
+    } ,} ")).
+Eval vm_compute in ("<<<M324>>>" ++ check (runes_of_ascii "MetaData metadata {
+//x
+// " ++ [128512]%N ++ runes_of_ascii " emoji
+}
+    root packet chars {
+    @lengthOf(Packet
+    // @lengthOf(
+    ) // c
+repeat int16 roots `
+` ,	}")).
+Eval vm_compute in ("<<<M3960>>>" ++ check (runes_of_ascii "
+
+  packet
+A { 
+u16
+    len@lengthOf(  body)`a
+    b
+  c`  ,u32
+	crc@calculatedFrom(
+""CRC32""
+
+)	`a
+    b
+  c`, string
+	body 
+,
+
+}
+")).
+Eval vm_compute in ("<<<M954>>>" ++ check (runes_of_ascii "packet Z9_ {
+@tag(
+    00	)
+    @tag(7) @lengthOf(
+    //x
+    Logon)zchar[
+0123456789
+]
+x_y_z@calculatedFrom( ""a\\""  ) , }
+")).
+Eval vm_compute in ("<<<M4564>>>" ++ check (runes_of_ascii "root packet matchKey {
+    zchar[3] pack @calculatedFrom(""a	b"") `doc`,
+}
+
+options {
+}
+
+MetaData A {
+    int8 msg_type,
+}// c")).
+Eval vm_compute in ("<<<M3313>>>" ++ check (runes_of_ascii "root
+// c
+packet matchKey { zchar[ 3 ] pack @calculatedFrom( ""a	b"" ) `doc` , } options { } MetaData A { int8 msg_type , }")).
+Eval vm_compute in ("<<<M3345>>>" ++ check (runes_of_ascii "root packet matchKey { zchar[ 3 ] pack @calculatedFrom( ""a	b"" ) `doc` , } options { }
+// c
+MetaData A { int8 msg_type , }")).
+Eval vm_compute in ("<<<M1556>>>" ++ check (runes_of_ascii "packet
+//	t
+// trailing space 
+_x {
+// packet A { u8 x, }
+// c
+char[
+3
+    ] u8x @lengthOf(
+u8x ) , @calculatedFrom(""" ++ [128512]%N ++ runes_of_ascii """")).
+Eval vm_compute in ("<<<M1410>>>" ++ check (runes_of_ascii "
 packet
-    falsey { @calculatedFrom(""packet""  ) , char[
+    falsey : Header@calculatedFrom(""packet""  ) , char[
     0123456789 ] packetx
     , } // `tick` ""quote"" 'q'")).
-Eval vm_compute in ("<<<M213>>>" ++ check (runes_of_ascii "root packet repeatCount
-// c
-// " ++ [128512]%N ++ runes_of_ascii " emoji
-{
-msg_type// `tick` ""quote"" 'q'
-{
-float64 lengthOf
-`" ++ [233]%N ++ runes_of_ascii "`,
-}
-    ,  }")).
-Eval vm_compute in ("<<<M4113>>>" ++ check (runes_of_ascii "root packet rootA {
-    @lengthOf(A)
-    zchar[65535] len `a\`,
+Eval vm_compute in ("<<<M3528>>>" ++ check (runes_of_ascii "// top
+root // c0a
+  // c0b
+packet P // c2a
+  // c2b
+{ // c3
+repeat // c4
+char cs , u8 x // c9a
+  // c9b
+, // c10
+} ")).
+Eval vm_compute in ("<<<M4302>>>" ++ check (runes_of_ascii "packet A {
+    u16 len @lengthOf(body) `
+    `,
+    u32 crc @calculatedFrom(""CRC32"") `
+    `,
+    string body,
+}")).
+Eval vm_compute in ("<<<M3808>>>" ++ check (runes_of_ascii "MetaData float {
+    float64 charz `
+        `,
 }
 
-root packet packetx {
-    uint8 i8i8,
+root packet chars {
+    // c
+    @rightPad('0')
+    Foo,
 }")).
-Eval vm_compute in ("<<<M205>>>" ++ check (runes_of_ascii "  root packet// " ++ [128512]%N ++ runes_of_ascii " emoji
-o
-    {
-    @calculatedFrom( ""a\""b"" //x
-) repeat crc ,	@tag( 10  )
-x_y_z, }
+Eval vm_compute in ("<<<M3033>>>" ++ check (runes_of_ascii "packet A {
+    u16 len @lengthOf(body) `x
+`,
+    u32 crc @calculatedFrom(""CRC32"") `x
+`,
+    string body,
+}")).
+Eval vm_compute in ("<<<M3010>>>" ++ check (runes_of_ascii "packet A {
+    Inner {
+        u8 x `a
+b`,
+        Deep {
+            u8 y `a
+b`,
+        },
+    },
+}")).
+Eval vm_compute in ("<<<M4330>>>" ++ check (runes_of_ascii "// c
+MetaData float {
+    float64 charz `
+    `,
+}
+
+root packet chars {
+    @rightPad('0')
+    Foo,
+}")).
+Eval vm_compute in ("<<<M876>>>" ++ check (runes_of_ascii "packet repeatCount{ }
+root packet uint8x {
+    @rightPad ( '\x00' )
+options1//x
+As , // a // b
+}
 ")).
-Eval vm_compute in ("<<<M18>>>" ++ check (runes_of_ascii "// packet A { u8 x, }
-options{lengthOf= 255 // " ++ [27880; 37322]%N ++ runes_of_ascii "
-; /// triple
-}packet MetaDataX {int32  body
+Eval vm_compute in ("<<<M3738>>>" ++ check (runes_of_ascii "MetaData float {
+    float64 charz `
+    `,
+}
+
+root packet chars {
+    @rightPad('0')
+    Foo,
+}")).
+Eval vm_compute in ("<<<M2247>>>" ++ check (runes_of_ascii "options
+{ } options { BodyLength= u16 Header Header= f64 ; u128 =
+    true
+    ; } // a // b")).
+Eval vm_compute in ("<<<M2954>>>" ++ check (runes_of_ascii "packet A {
+  match k as n {
+    [1, ""bb"", 007, ""d"", 5, ""f"", 7, ""h"", 9] : B
+    2 : C
+  },
+}")).
+Eval vm_compute in ("<<<M2254>>>" ++ check (runes_of_ascii "options
+{ } options { BodyLength= u16 Header""\" ++ [233]%N ++ runes_of_ascii """ f64 ; u128 =
+    true
+    ; } // a // b")).
+Eval vm_compute in ("<<<M3293>>>" ++ check (runes_of_ascii "MetaData float { float64 charz `
+` , } root packet chars { @rightPad // c
+( '0' ) Foo , }")).
+Eval vm_compute in ("<<<M3504>>>" ++ check (runes_of_ascii "packet chars { } packet MetaDataX { @tag( 42 )
+// c
+i16 string_ , repeat x `say ""hi""` , }")).
+Eval vm_compute in ("<<<M2294>>>" ++ check (runes_of_ascii "options
+{ } options { BodyLength= @ u16 Header= f64 ; u128 =
+    true
+    ; } // a // b")).
+Eval vm_compute in ("<<<M3247>>>" ++ check (runes_of_ascii "packet metadata { Logon { A `" ++ [28040; 24687; 31867; 22411]%N ++ runes_of_ascii "` , tag o , } , zchar len `// not a comment` , } // c
+")).
+Eval vm_compute in ("<<<M3211>>>" ++ check (runes_of_ascii "// c
+packet metadata { Logon { A `" ++ [28040; 24687; 31867; 22411]%N ++ runes_of_ascii "` , tag o , } , zchar len `// not a comment` , }")).
+Eval vm_compute in ("<<<M3244>>>" ++ check (runes_of_ascii "packet metadata { Logon { A `" ++ [28040; 24687; 31867; 22411]%N ++ runes_of_ascii "` , tag o , } , zchar len `// not a comment`
+// c
 , }")).
-Eval vm_compute in ("<<<M4378>>>" ++ check (runes_of_ascii "  root	packet
-    SimpleMessage {	uint16 
-MsgType`" ++ [28040; 24687; 31867; 22411]%N ++ runes_of_ascii "`	, string
-    JsonBody
-`Json" ++ [23383; 31526; 20018; 28040; 24687; 20307]%N ++ runes_of_ascii "`
-,
-}
-")).
-Eval vm_compute in ("<<<M2302>>>" ++ check (runes_of_ascii "options
-{ } options { BodyLength= u16 Header= f64 ; u128 =
-    true
-    ; } // a // b@leftpad")).
-Eval vm_compute in ("<<<M809>>>" ++ check (runes_of_ascii "
-options  {u =	uint16
-i8i8 =i8 ; string_ = false ;asx= true lengthOf
-=
-0123456789
-    ;
-}
-")).
-Eval vm_compute in ("<<<M3854>>>" ++ check (runes_of_ascii "packet
-A  { 
-match 
+Eval vm_compute in ("<<<M3435>>>" ++ check (runes_of_ascii "packet o { repeat // c
+Logon uint8x , } options { asx = zchar[ 3 ] stringy = '\x00' }")).
+Eval vm_compute in ("<<<M4114>>>" ++ check (runes_of_ascii "
+
+  packet A {
+
+    match
 k
-as 
+    as
+
 n
-	{ [
+    {
 
-    1  , 22
-	,  007
-,
-    4] :B 
-2
-	:	C }
+    1 : B // c
+	  ,// d
+  },
+	}
 
-    ,}
 ")).
-Eval vm_compute in ("<<<M3287>>>" ++ check (runes_of_ascii "MetaData float { float64 charz `
-` , } root packet // c
-chars { @rightPad ( '0' ) Foo , }")).
-Eval vm_compute in ("<<<M3498>>>" ++ check (runes_of_ascii "packet chars { } packet MetaDataX {
-// c
-@tag( 42 ) i16 string_ , repeat x `say ""hi""` , }")).
-Eval vm_compute in ("<<<M2262>>>" ++ check (runes_of_ascii "options
-{ } options { BodyLength= u16 Header= f64 ; ; u128 =
-    true
-    ; } // a // b")).
-Eval vm_compute in ("<<<M2307>>>" ++ check (runes_of_ascii "options
-{ } options { BodyLength= u16 Header= f64 ; #u128 =
-    true
-    ; } // a // b")).
-Eval vm_compute in ("<<<M2263>>>" ++ check (runes_of_ascii "options
-{ } options { BodyLength= u16 Header= f64 u128 ; =
-    true
-    ; } // a // b")).
-Eval vm_compute in ("<<<M3237>>>" ++ check (runes_of_ascii "packet metadata { Logon { A `" ++ [28040; 24687; 31867; 22411]%N ++ runes_of_ascii "` , tag o , } , // c
-zchar len `// not a comment` , }")).
-Eval vm_compute in ("<<<M2944>>>" ++ check (runes_of_ascii "packet A {
+Eval vm_compute in ("<<<M3422>>>" ++ check (runes_of_ascii "MetaData body { i64 pack `it's` , } packet stringy { int16 calculatedFrom , } // c
+")).
+Eval vm_compute in ("<<<M3410>>>" ++ check (runes_of_ascii "MetaData body { i64 pack `it's` , } packet // c
+stringy { int16 calculatedFrom , }")).
+Eval vm_compute in ("<<<M4270>>>" ++ check (runes_of_ascii "packet A {
+    B b `
+        `,
+    B `
+        `,
+    repeat B bs `
+        `,
+}")).
+Eval vm_compute in ("<<<M2903>>>" ++ check (runes_of_ascii "packet A {
   match k as n {
-    [1, 22, ""c c"", 4, 5, ""f"", 7, 8] : B,
+    [""a"", 22, ""c c"", 4, ""e""] : B,
     2 : C
   },
 }")).
-Eval vm_compute in ("<<<M3457>>>" ++ check (runes_of_ascii "packet o { repeat Logon uint8x , } options { asx = zchar[ 3 ] // c
-stringy = '\x00' }")).
-Eval vm_compute in ("<<<M1745>>>" ++ check (runes_of_ascii "options { trueish = ""`tick`"" ; string_= """ ++ [233]%N ++ runes_of_ascii "t" ++ [233]%N ++ runes_of_ascii """
+Eval vm_compute in ("<<<M2902>>>" ++ check (runes_of_ascii "packet A {
+  match k as n {
+    [1, ""bb"", 007, ""d"", 5] : B
+    2 : C
+  },
+}")).
+Eval vm_compute in ("<<<M2839>>>" ++ check (runes_of_ascii "false false char char[ root repeat ""`tick`"" [ MetaData { int32 '0' char[")).
+Eval vm_compute in ("<<<M2961>>>" ++ check (runes_of_ascii "packet A { Inner { match k as n { [1,22,007,4,5,66,7,8,9] : B, }, }, }")).
+Eval vm_compute in ("<<<M2739>>>" ++ check (runes_of_ascii "packet int32 ""packet"" = int64 uint64 : char[] 42 `{ , }` options 10")).
+Eval vm_compute in ("<<<M321>>>" ++ check (runes_of_ascii "MetaData // " ++ [128512]%N ++ runes_of_ascii " emoji
+Header { // trailing space 
+u64 falsey ,
+}")).
+Eval vm_compute in ("<<<M765>>>" ++ check (runes_of_ascii "// trailing space 
+packet x_y_z { @tag( 255 )char[] float ,
+}")).
+Eval vm_compute in ("<<<M1029>>>" ++ check (runes_of_ascii "// packet A { u8 x, }
+MetaData MetaDataX {
+    u8 roots , }")).
+Eval vm_compute in ("<<<M3369>>>" ++ check (runes_of_ascii "packet x { // c
+@rightPad ( ) repeat roots Logon `doc` , }")).
+Eval vm_compute in ("<<<M4420>>>" ++ check (runes_of_ascii "options {
+    falsey = ""\" ++ [233]%N ++ runes_of_ascii """;
+    lengthOf = 0;
     // c
-    } root
-    packet body {")).
-Eval vm_compute in ("<<<M3402>>>" ++ check (runes_of_ascii "MetaData body { i64 pack // c
-`it's` , } packet stringy { int16 calculatedFrom , }")).
-Eval vm_compute in ("<<<M3589>>>" ++ check (runes_of_ascii "packet orderItem {
-    u8 a,
+}")).
+Eval vm_compute in ("<<<M1172>>>" ++ check (runes_of_ascii "options
+    { Logon
+= ' ' } MetaData
+BodyLength{  }
+")).
+Eval vm_compute in ("<<<M1245>>>" ++ check (runes_of_ascii "options{
+i8i8 =u32
+    ; msg_type  = //
+true
 }
-root packet newOrder {
-    orderItem,
-    u8 x,
+
+")).
+Eval vm_compute in ("<<<M4460>>>" ++ check (runes_of_ascii "  options{  lengthOf
+
+    =
+    false
+    ; }")).
+Eval vm_compute in ("<<<M3788>>>" ++ check (runes_of_ascii "options {
+    T = false;
+    tag = char[0];
+}")).
+Eval vm_compute in ("<<<M2734>>>" ++ check (runes_of_ascii "@tag( @lengthOf( , @calculatedFrom( u16 as")).
+Eval vm_compute in ("<<<M3191>>>" ++ check (runes_of_ascii "root packet // c
+u128 { chars `it's` , }")).
+Eval vm_compute in ("<<<M1158>>>" ++ check (runes_of_ascii "options {
+zchar =  int32 ; T = false}
+")).
+Eval vm_compute in ("<<<M2694>>>" ++ check ([65533; 8]%N ++ runes_of_ascii "w!67" ++ [65533; 65533; 65533; 65533; 65533; 65533; 23; 65533; 28; 65533]%N ++ runes_of_ascii "k3 k" ++ [65533; 65533; 65533; 65533; 28; 65533; 65533; 65533; 1656; 65533; 16]%N ++ runes_of_ascii "J" ++ [65533]%N ++ runes_of_ascii "F" ++ [65533; 65533]%N)).
+Eval vm_compute in ("<<<M4381>>>" ++ check (runes_of_ascii "
+packet A
+{ }	// a
+		// b
+    // c")).
+Eval vm_compute in ("<<<M2613>>>" ++ check (runes_of_ascii "packet A { match k n { 1 : B }, }")).
+Eval vm_compute in ("<<<M4239>>>" ++ check (runes_of_ascii "packet int {
 }
-")).
-Eval vm_compute in ("<<<M3826>>>" ++ check (runes_of_ascii "
-packet
 
-    A {match 
-k 
-as
-n{ 
-[
-1 ,	22 , 007
-] 
-:
-B 2:
-
-C 
-} ,
-    }
-
-")).
-Eval vm_compute in ("<<<M2911>>>" ++ check (runes_of_ascii "packet A {
-  match k as n {
-    [1, 22, 007, 4, 5, 66] : B
-    2 : C
-  },
+packet roots {
 }")).
-Eval vm_compute in ("<<<M2889>>>" ++ check (runes_of_ascii "packet A {
-  match k as n {
-    [1, ""bb"", 007, ""d""] : B
-    2 : C
-  },
+Eval vm_compute in ("<<<M3062>>>" ++ check (runes_of_ascii "packet A {
+ u8 x `d `, // c 
 }")).
-Eval vm_compute in ("<<<M2351>>>" ++ check (runes_of_ascii "// c
-packet x { @lengthOf( metadata ) repeat lengthOf
-,a1{
-trueish	,")).
-Eval vm_compute in ("<<<M4315>>>" ++ check (runes_of_ascii "  options{matchKey = 0	Header= 
-// " ++ [128512]%N ++ runes_of_ascii " emoji
-    // c
-    ""CRC32"" }
-")).
-Eval vm_compute in ("<<<M2865>>>" ++ check (runes_of_ascii "packet A {
-  match k as n {
-    [""a"", ""bb""] : B
-    2 : C
-  },
-}")).
-Eval vm_compute in ("<<<M1446>>>" ++ check (runes_of_ascii "
-packet
-    falsey { Header@calculatedFrom(""packet""  ) , char[")).
-Eval vm_compute in ("<<<M3175>>>" ++ check (runes_of_ascii "packet A { @leftPad() char[4] x, @rightPad( ) zchar[2] y, }")).
-Eval vm_compute in ("<<<M3377>>>" ++ check (runes_of_ascii "packet x { @rightPad ( ) repeat // c
-roots Logon `doc` , }")).
-Eval vm_compute in ("<<<M1441>>>" ++ check (runes_of_ascii "
-packet
-    falsey { Header@calculatedFrom(""packet""  ) ,")).
-Eval vm_compute in ("<<<M4141>>>" ++ check (runes_of_ascii "packet 
-A
+Eval vm_compute in ("<<<M3985>>>" ++ check (runes_of_ascii "packet
 
-{ char[ 	 // a
-  	3// b
-  ]// c
-    x	, } ")).
-Eval vm_compute in ("<<<M262>>>" ++ check (runes_of_ascii "MetaData u128 { uint8x msg_type `line1
-line2`	, }")).
-Eval vm_compute in ("<<<M346>>>" ++ check (runes_of_ascii "MetaData leftPad // `tick` ""quote"" 'q'
+    f32a 
 {
-    }")).
-Eval vm_compute in ("<<<M4179>>>" ++ check (runes_of_ascii "root packet u128 {
-    char[007] MetaDataX,
-}")).
-Eval vm_compute in ("<<<M728>>>" ++ check (runes_of_ascii "options { options1 = float64
-    ; } // " ++ [27880; 37322]%N)).
-Eval vm_compute in ("<<<M2702>>>" ++ check ([11]%N ++ runes_of_ascii "d" ++ [65533]%N ++ runes_of_ascii "g" ++ [65533; 65533; 65533; 65533]%N ++ runes_of_ascii "(" ++ [29]%N ++ runes_of_ascii "0" ++ [65533; 65533]%N ++ runes_of_ascii "O" ++ [65533]%N ++ runes_of_ascii "[Y" ++ [65533; 65533]%N ++ runes_of_ascii "1p" ++ [65533]%N ++ runes_of_ascii "f" ++ [65533; 65533; 14]%N ++ runes_of_ascii "}`" ++ [7]%N ++ runes_of_ascii "g" ++ [65533; 65533]%N ++ runes_of_ascii "#k" ++ [65533; 65533; 65533; 65533]%N ++ runes_of_ascii "L")).
-Eval vm_compute in ("<<<M4332>>>" ++ check (runes_of_ascii "MetaData x {
-    int32 a1 `say ""hi""`,
-}")).
-Eval vm_compute in ("<<<M243>>>" ++ check (runes_of_ascii "// c
-root packet
-calculatedFrom { }
+    }
 ")).
-Eval vm_compute in ("<<<M2783>>>" ++ check ([14]%N ++ runes_of_ascii "2" ++ [65533; 12]%N ++ runes_of_ascii "p[kGJ" ++ [1244; 65533; 65533]%N ++ runes_of_ascii "_*Q`" ++ [65533; 6; 65533]%N ++ runes_of_ascii "VT;" ++ [65533; 65533; 65533]%N ++ runes_of_ascii "85:r" ++ [65533]%N ++ runes_of_ascii "V" ++ [65533; 65533; 65533; 65533]%N)).
-Eval vm_compute in ("<<<M4214>>>" ++ check (runes_of_ascii "packet A {
-    @tag(1)
-    u8 x,
-}")).
-Eval vm_compute in ("<<<M2811>>>" ++ check (runes_of_ascii "@lengthOf( @tag( ( `a\` i16 ( as")).
-Eval vm_compute in ("<<<M2728>>>" ++ check ([12; 1143; 65533]%N ++ runes_of_ascii ",j^" ++ [65533; 65533]%N ++ runes_of_ascii "t" ++ [65533; 65533; 19; 65533; 65533; 65533; 65533; 65533]%N ++ runes_of_ascii "-
-" ++ [65533; 1407; 65533]%N ++ runes_of_ascii "}^$" ++ [65533; 65533]%N ++ runes_of_ascii "O " ++ [65533]%N)).
-Eval vm_compute in ("<<<M2814>>>" ++ check (runes_of_ascii " y!?qy-V\MAcTKR_L,7(1t1T$HN/[")).
-Eval vm_compute in ("<<<M2748>>>" ++ check (runes_of_ascii "L" ++ [1964; 65533; 65533]%N ++ runes_of_ascii "@" ++ [65533; 1940; 24]%N ++ runes_of_ascii "C" ++ [65533]%N ++ runes_of_ascii "e" ++ [65533]%N ++ runes_of_ascii "|=" ++ [65533; 65533; 820; 65533]%N ++ runes_of_ascii "d" ++ [65533]%N ++ runes_of_ascii "#" ++ [65533; 16]%N ++ runes_of_ascii "M" ++ [65533]%N ++ runes_of_ascii "p^")).
-Eval vm_compute in ("<<<M1093>>>" ++ check (runes_of_ascii "options { }
-options { }
+Eval vm_compute in ("<<<M2786>>>" ++ check (runes_of_ascii "MetaData zchar[ repeatCount")).
+Eval vm_compute in ("<<<M1120>>>" ++ check (runes_of_ascii "packet
+    Logon
+{Foo , }")).
+Eval vm_compute in ("<<<M1141>>>" ++ check (runes_of_ascii "root packet len
+    { }
 ")).
-Eval vm_compute in ("<<<M2668>>>" ++ check (runes_of_ascii "options { options = 1; }")).
-Eval vm_compute in ("<<<M214>>>" ++ check (runes_of_ascii "  root packet charz{}")).
-Eval vm_compute in ("<<<M2788>>>" ++ check (runes_of_ascii "20eb,uu[8$`5hB(bTQC<")).
-Eval vm_compute in ("<<<M3125>>>" ++ check (runes_of_ascii "packet A {
-}
-// c 	")).
-Eval vm_compute in ("<<<M3066>>>" ++ check (runes_of_ascii "// c" ++ [12288]%N ++ runes_of_ascii "
+Eval vm_compute in ("<<<M2639>>>" ++ check (runes_of_ascii "root root packet A { }")).
+Eval vm_compute in ("<<<M2108>>>" ++ check (runes_of_ascii "options{
+_x
+= true
+}")).
+Eval vm_compute in ("<<<M2640>>>" ++ check (runes_of_ascii "root MetaData M { }")).
+Eval vm_compute in ("<<<M3061>>>" ++ check (runes_of_ascii "// c 
 packet A {
 }")).
-Eval vm_compute in ("<<<M3167>>>" ++ check (runes_of_ascii "packet A { // a
- }")).
-Eval vm_compute in ("<<<M3128>>>" ++ check (runes_of_ascii "packet A {
-}// c" ++ [8203]%N)).
-Eval vm_compute in ("<<<M3156>>>" ++ check (runes_of_ascii "
+Eval vm_compute in ("<<<M3143>>>" ++ check (runes_of_ascii "packet A {
+}// c x")).
+Eval vm_compute in ("<<<M3118>>>" ++ check (runes_of_ascii "packet A {
+}// c" ++ [12]%N)).
+Eval vm_compute in ("<<<M2853>>>" ++ check (runes_of_ascii "X788AH5itKe=;k[")).
+Eval vm_compute in ("<<<M1179>>>" ++ check (runes_of_ascii "/// triple
 
-  packet A {}")).
-Eval vm_compute in ("<<<M1334>>>" ++ check (runes_of_ascii "options
-{ }
 ")).
 Eval vm_compute in ("<<<M2704>>>" ++ check (runes_of_ascii ") char[] ,")).
-Eval vm_compute in ("<<<M363>>>" ++ check (runes_of_ascii "// c
-
-
-")).
-Eval vm_compute in ("<<<M2473>>>" ++ check (runes_of_ascii "'\x00'")).
-Eval vm_compute in ("<<<M2675>>>" ++ check (runes_of_ascii "u8 x,")).
-Eval vm_compute in ("<<<M2501>>>" ++ check (runes_of_ascii "// x")).
-Eval vm_compute in ("<<<M2509>>>" ++ check (runes_of_ascii """a\")).
-Eval vm_compute in ("<<<M2498>>>" ++ check (runes_of_ascii "//")).
-Eval vm_compute in ("<<<M2687>>>" ++ check ([65279]%N)).
+Eval vm_compute in ("<<<M2429>>>" ++ check (runes_of_ascii "char[]x")).
+Eval vm_compute in ("<<<M2805>>>" ++ check (runes_of_ascii "as f64")).
+Eval vm_compute in ("<<<M3084>>>" ++ check (runes_of_ascii "// c" ++ [8192]%N)).
+Eval vm_compute in ("<<<M2539>>>" ++ check (runes_of_ascii "A1b2")).
+Eval vm_compute in ("<<<M2544>>>" ++ check (runes_of_ascii "a	b")).
+Eval vm_compute in ("<<<M2548>>>" ++ check (runes_of_ascii "	a")).
